@@ -232,6 +232,198 @@ inline std::map<std::string, std::string> diffKeys(const std::string& a, const s
 
 // ---- query sweeps ------------------------------------------------------------------------------
 
+inline std::string optD(const std::optional<double>& v) { return v.has_value() ? vh::hexF64(*v) : std::string("none"); }
+inline std::string optI(const std::optional<int>& v) { return v.has_value() ? std::to_string(*v) : std::string("none"); }
+inline std::string optS(const std::optional<std::string>& v) { return v.has_value() ? "'" + *v + "'" : std::string("none"); }
+inline std::string vecD(const std::vector<double>& v) { std::string s; for (double x : v) { s += vh::hexF64(x); s += ','; } return s; }
+
+// every getter on its own line, each guarded on its own: a getter that throws prints `err`
+#define SO_Q(key, expr) do { try { d.kv((key), (expr)); } catch (const std::exception&) { d.kv((key), std::string("err")); } } while (0)
+
+// a SimpleTable (and everything derived from it): shape, column names, every value and its
+// "defaulted" flag
+inline void dumpSimpleTable(Dump& d, const std::string& p, const Opm::SimpleTable& t) {
+    d.kv(p + "rows", t.numRows());
+    d.kv(p + "cols", t.numColumns());
+    for (std::size_t c = 0; c < t.numColumns(); ++c) {
+        const auto& col = t.getColumn(c);
+        std::string vals, defs;
+        for (std::size_t r = 0; r < col.size(); ++r) { vals += vh::hexF64(col[r]); vals += ','; defs += col.defaultApplied(r) ? '1' : '0'; }
+        d.kv(p + "col" + std::to_string(c) + ".name", col.name());
+        d.kv(p + "col" + std::to_string(c) + ".v", vals);
+        d.kv(p + "col" + std::to_string(c) + ".def", defs);
+    }
+}
+
+inline void dumpTableContainer(Dump& d, const std::string& p, const Opm::TableContainer& tc) {
+    d.kv(p + "size", tc.size());
+    d.kv(p + "max", tc.max());
+    for (const auto& [idx, ptr] : tc.tables()) {
+        const std::string q = p + "n" + std::to_string(idx) + ".";
+        d.kv(q + "present", ptr != nullptr);
+        if (ptr) dumpSimpleTable(d, q, *ptr);
+    }
+}
+
+inline void dumpTuning(Dump& d, const std::string& p, const Opm::Tuning& t) {
+    d.kv(p + "TSINIT", optD(t.TSINIT));
+    d.kv(p + "TSMAXZ", t.TSMAXZ); d.kv(p + "TSMINZ", t.TSMINZ); d.kv(p + "TSMCHP", t.TSMCHP); d.kv(p + "TSFMAX", t.TSFMAX);
+    d.kv(p + "TSFMIN", t.TSFMIN); d.kv(p + "TFDIFF", t.TFDIFF); d.kv(p + "TSFCNV", t.TSFCNV); d.kv(p + "THRUPT", t.THRUPT);
+    d.kv(p + "TMAXWC", t.TMAXWC); d.kv(p + "TMAXWC_has_value", t.TMAXWC_has_value);
+    d.kv(p + "TRGTTE", t.TRGTTE); d.kv(p + "TRGCNV", t.TRGCNV); d.kv(p + "TRGMBE", t.TRGMBE); d.kv(p + "TRGLCV", t.TRGLCV);
+    d.kv(p + "XXXTTE", t.XXXTTE); d.kv(p + "XXXCNV", t.XXXCNV); d.kv(p + "XXXMBE", t.XXXMBE); d.kv(p + "XXXLCV", t.XXXLCV);
+    d.kv(p + "XXXWFL", t.XXXWFL); d.kv(p + "TRGFIP", t.TRGFIP); d.kv(p + "TRGSFT", t.TRGSFT); d.kv(p + "TRGSFT_has_value", t.TRGSFT_has_value);
+    d.kv(p + "THIONX", t.THIONX); d.kv(p + "TRWGHT", t.TRWGHT);
+    d.kv(p + "NEWTMX", t.NEWTMX); d.kv(p + "NEWTMN", t.NEWTMN); d.kv(p + "LITMAX", t.LITMAX); d.kv(p + "LITMIN", t.LITMIN);
+    d.kv(p + "MXWSIT", t.MXWSIT); d.kv(p + "MXWPIT", t.MXWPIT); d.kv(p + "DDPLIM", t.DDPLIM); d.kv(p + "DDSLIM", t.DDSLIM);
+    d.kv(p + "TRGDPR", t.TRGDPR); d.kv(p + "XXXDPR", t.XXXDPR); d.kv(p + "XXXDPR_has_value", t.XXXDPR_has_value);
+    d.kv(p + "WSEG_MAX_RESTART", t.WSEG_MAX_RESTART); d.kv(p + "WSEG_REDUCTION_FACTOR", t.WSEG_REDUCTION_FACTOR); d.kv(p + "WSEG_INCREASE_FACTOR", t.WSEG_INCREASE_FACTOR);
+}
+
+inline void dumpSegmentDevices(Dump& d, const std::string& q, const Opm::Segment& s) {
+    d.kv(q + "perflen", s.perfLength());
+    d.kv(q + "nodeX", s.node_X());
+    d.kv(q + "nodeY", s.node_Y());
+    d.kv(q + "dataReady", s.dataReady());
+    SO_Q(q + "ecl_type", s.ecl_type_id());
+    { std::string in; for (int x : s.inletSegments()) in += std::to_string(x) + ","; d.kv(q + "inlets", in); }
+    d.kv(q + "isRegular", s.isRegular()); d.kv(q + "isValve", s.isValve()); d.kv(q + "isSICD", s.isSpiralICD()); d.kv(q + "isAICD", s.isAICD());
+    if (s.isValve()) {
+        const auto& v = s.valve();
+        SO_Q(q + "valve.cv", v.conFlowCoefficient());
+        SO_Q(q + "valve.area", v.conCrossArea());
+        SO_Q(q + "valve.areaValue", v.conCrossAreaValue());
+        SO_Q(q + "valve.maxArea", v.conMaxCrossArea());
+        SO_Q(q + "valve.addLen", v.pipeAdditionalLength());
+        SO_Q(q + "valve.pipeD", v.pipeDiameter());
+        SO_Q(q + "valve.pipeRough", v.pipeRoughness());
+        SO_Q(q + "valve.pipeA", v.pipeCrossArea());
+        SO_Q(q + "valve.status", static_cast<int>(v.status()));
+        SO_Q(q + "valve.ecl_status", v.ecl_status());
+    }
+    auto sicd = [&](const std::string& r, const Opm::SICD& x) {
+        SO_Q(r + "strength", x.strength());
+        SO_Q(r + "length", x.length());
+        SO_Q(r + "densCal", x.densityCalibration());
+        SO_Q(r + "viscCal", x.viscosityCalibration());
+        SO_Q(r + "critical", x.criticalValue());
+        SO_Q(r + "widthTrans", x.widthTransitionRegion());
+        SO_Q(r + "maxViscRatio", x.maxViscosityRatio());
+        SO_Q(r + "method", x.methodFlowScaling());
+        SO_Q(r + "maxAbsRate", optD(x.maxAbsoluteRate()));
+        SO_Q(r + "status", static_cast<int>(x.status()));
+        SO_Q(r + "ecl_status", x.ecl_status());
+        SO_Q(r + "scaling", x.scalingFactor());
+    };
+    if (s.isSpiralICD()) sicd(q + "sicd.", s.spiralICD());
+    if (s.isAICD()) {
+        const auto& a = s.autoICD();
+        sicd(q + "aicd.", a);
+        SO_Q(q + "aicd.flowExp", a.flowRateExponent());
+        SO_Q(q + "aicd.viscExp", a.viscExponent());
+        SO_Q(q + "aicd.oilDensExp", a.oilDensityExponent());
+        SO_Q(q + "aicd.watDensExp", a.waterDensityExponent());
+        SO_Q(q + "aicd.gasDensExp", a.gasDensityExponent());
+        SO_Q(q + "aicd.oilViscExp", a.oilViscExponent());
+        SO_Q(q + "aicd.watViscExp", a.waterViscExponent());
+        SO_Q(q + "aicd.gasViscExp", a.gasViscExponent());
+    }
+}
+
+// the parts of a Well that the keyword families WECON, WPOLYMER, WFOAM, WSALT, WTRACER, WVFPEXP,
+// WDFAC(COR), WPAVE/WWPAVE/WPAVEDEP, WINJTEMP, WINJMULT, WGRUPCON, WLIST, COMPLUMP fill
+inline void dumpWellExtras(Dump& d, const std::string& p, const Opm::Well& w) {
+    d.kv(p + "availgrup", w.isAvailableForGroupControl());
+    d.kv(p + "guiderate", w.getGuideRate());
+    SO_Q(p + "guidephase", static_cast<int>(w.getGuideRatePhase()));
+    SO_Q(p + "guidephase_raw", static_cast<int>(w.getRawGuideRatePhase()));
+    d.kv(p + "guidescale", w.getGuideRateScalingFactor());
+    d.kv(p + "firststep", w.firstTimeStep());
+    d.kv(p + "hasrefdepth", w.hasRefDepth());
+    SO_Q(p + "wpaverefdepth", w.getWPaveRefDepth());
+    d.kv(p + "solvent", w.getSolventFraction());
+    d.kv(p + "prefphase", static_cast<int>(w.getPreferredPhase()));
+    d.kv(p + "injmult.mode", static_cast<int>(w.getInjMultMode()));
+    d.kv(p + "injmult.active", w.aciveWellInjMult());
+    if (w.aciveWellInjMult()) {   // (asserted by the getter)
+        SO_Q(p + "injmult.fp", w.getWellInjMult().fracture_pressure);
+        SO_Q(p + "injmult.grad", w.getWellInjMult().multiplier_gradient);
+    }
+    d.kv(p + "gasinflow", static_cast<int>(w.gas_inflow_equation()));
+    d.kv(p + "hasinjtemp", w.hasInjTemperature());
+    if (w.hasInjTemperature()) SO_Q(p + "injtemp", w.inj_temperature());
+    d.kv(p + "hasinjected", w.hasInjected());
+    d.kv(p + "hasproduced", w.hasProduced());
+    SO_Q(p + "prodcmode", static_cast<int>(w.production_cmode()));
+    SO_Q(p + "injcmode", static_cast<int>(w.injection_cmode()));
+    d.kv(p + "maxseg", w.maxSegmentID());
+    d.kv(p + "maxbranch", w.maxBranchID());
+    {
+        const auto& e = w.getEconLimits();
+        d.kv(p + "econ.any", e.onAnyEffectiveLimit()); d.kv(p + "econ.anyratio", e.onAnyRatioLimit()); d.kv(p + "econ.anyrate", e.onAnyRateLimit());
+        d.kv(p + "econ.minoil", e.minOilRate()); d.kv(p + "econ.mingas", e.minGasRate()); d.kv(p + "econ.maxwct", e.maxWaterCut());
+        d.kv(p + "econ.maxgor", e.maxGasOilRatio()); d.kv(p + "econ.maxwgr", e.maxWaterGasRatio()); d.kv(p + "econ.workover", static_cast<int>(e.workover()));
+        d.kv(p + "econ.endrun", e.endRun()); d.kv(p + "econ.followon", e.followonWell()); d.kv(p + "econ.quantity", static_cast<int>(e.quantityLimit()));
+        d.kv(p + "econ.wct2", e.maxSecondaryMaxWaterCut()); d.kv(p + "econ.workover2", static_cast<int>(e.workoverSecondary()));
+        d.kv(p + "econ.maxglr", e.maxGasLiquidRatio()); d.kv(p + "econ.minliq", e.minLiquidRate()); d.kv(p + "econ.maxtemp", e.maxTemperature());
+        d.kv(p + "econ.minresv", e.minReservoirFluidRate()); d.kv(p + "econ.validfollow", e.validFollowonWell());
+        d.kv(p + "econ.reqwork", e.requireWorkover()); d.kv(p + "econ.reqwork2", e.requireSecondaryWorkover());
+    }
+    d.kv(p + "foam", w.getFoamProperties().m_foamConcentration);
+    d.kv(p + "polymer.c", w.getPolymerProperties().m_polymerConcentration);
+    d.kv(p + "polymer.salt", w.getPolymerProperties().m_saltConcentration);
+    d.kv(p + "polymer.plymwinj", w.getPolymerProperties().m_plymwinjtable);
+    d.kv(p + "polymer.skprwat", w.getPolymerProperties().m_skprwattable);
+    d.kv(p + "polymer.skprpoly", w.getPolymerProperties().m_skprpolytable);
+    d.kv(p + "brine", w.getBrineProperties().m_saltConcentration);
+    for (const char* tr : { "SEA", "OT", "GT", "NOSUCH" }) SO_Q(p + "tracer." + tr, w.getTracerProperties().getConcentration(tr));
+    d.kv(p + "wvfpdp.dp", w.getWVFPDP().getPressureAdjustment());
+    d.kv(p + "wvfpdp.fp", w.getWVFPDP().getPLossScalingFactor());
+    {
+        const auto& x = w.getWVFPEXP();
+        d.kv(p + "wvfpexp.explicit", x.explicit_lookup()); d.kv(p + "wvfpexp.shut", x.shut()); d.kv(p + "wvfpexp.prevent", x.prevent());
+        d.kv(p + "wvfpexp.first", x.report_first()); d.kv(p + "wvfpexp.every", x.report_every());
+    }
+    {
+        const auto& x = w.getWDFAC();
+        d.kv(p + "wdfac.use", x.useDFactor());
+        d.kv(p + "wdfac.a", x.getDFactorCorrelationCoefficients().coeff_a);
+        d.kv(p + "wdfac.b", x.getDFactorCorrelationCoefficients().exponent_b);
+        d.kv(p + "wdfac.c", x.getDFactorCorrelationCoefficients().exponent_c);
+        const auto& cs = w.getConnections();
+        for (std::size_t i = 0; i < cs.size(); ++i)
+            SO_Q(p + "c" + std::to_string(i) + ".wdfac", x.getDFactor([] { return 0.9; }, [] { return 2e-5; }, cs.get(i)));
+    }
+    {
+        const auto& a = w.pavg();
+        d.kv(p + "pavg.inner", a.inner_weight()); d.kv(p + "pavg.conn", a.conn_weight()); d.kv(p + "pavg.open", a.open_connections());
+        d.kv(p + "pavg.depth", static_cast<int>(a.depth_correction())); d.kv(p + "pavg.porv", a.use_porv());
+    }
+    try {
+        for (const auto& [num, conns] : w.getCompletions()) {
+            std::string e; for (const auto& c : conns) e += std::to_string(c.global_index()) + "/";
+            d.kv(p + "completion" + std::to_string(num), e);
+        }
+    } catch (const std::exception&) { d.kv(p + "completions", std::string("err")); }
+}
+
+inline void dumpConnectionExtras(Dump& d, const std::string& q, const Opm::Connection& c) {
+    d.kv(q + "attached", c.attachedToSegment());
+    d.kv(q + "Ke", c.Ke());
+    d.kv(q + "re", c.re());
+    d.kv(q + "connlen", c.connectionLength());
+    d.kv(q + "ctf.dfac", c.ctfProperties().d_factor);
+    d.kv(q + "ctf.static_dfac", c.ctfProperties().static_dfac_corr_coeff);
+    d.kv(q + "ctf.peaceman", c.ctfProperties().peaceman_denom);
+    d.kv(q + "injmult.active", c.activeInjMult());
+    if (c.activeInjMult()) {      // (asserted by the getter)
+        SO_Q(q + "injmult.fp", c.injmult().fracture_pressure);
+        SO_Q(q + "injmult.grad", c.injmult().multiplier_gradient);
+    }
+    d.kv(q + "filtercake", c.filterCakeActive());
+    d.kv(q + "perfrange", c.perf_range().has_value() ? vh::hexF64(c.perf_range()->first) + "/" + vh::hexF64(c.perf_range()->second) : std::string("none"));
+}
+
 inline void dumpWell(Dump& d, const std::string& p, const Opm::Well& w) {
     d.kv(p + "name", w.name());
     d.kv(p + "group", w.groupName());
@@ -292,10 +484,19 @@ inline void dumpWell(Dump& d, const std::string& p, const Opm::Well& w) {
         d.kv(q + "kind", static_cast<int>(c.kind()));
         d.kv(q + "sort", c.sort_value());
         d.kv(q + "defsat", c.getDefaultSatTabId());
+        dumpConnectionExtras(d, q, c);
     }
+    dumpWellExtras(d, p, w);
     if (w.isMultiSegment()) {
         const auto& segs = w.getSegments();
         d.kv(p + "nseg", segs.size());
+        SO_Q(p + "seg.maxid", segs.maxSegmentID());
+        SO_Q(p + "seg.maxbranch", segs.maxBranchID());
+        SO_Q(p + "seg.topdepth", segs.depthTopSegment());
+        SO_Q(p + "seg.toplength", segs.lengthTopSegment());
+        SO_Q(p + "seg.topvolume", segs.volumeTopSegment());
+        SO_Q(p + "seg.pdrop", static_cast<int>(segs.compPressureDrop()));
+        try { std::string b; for (int x : segs.branches()) b += std::to_string(x) + ","; d.kv(p + "seg.branches", b); } catch (const std::exception&) { d.kv(p + "seg.branches", std::string("err")); }
         for (std::size_t i = 0; i < segs.size(); ++i) {
             const auto& s = segs[i];
             const std::string q = p + "s" + std::to_string(i) + ".";
@@ -310,6 +511,11 @@ inline void dumpWell(Dump& d, const std::string& p, const Opm::Well& w) {
             d.kv(q + "vol", s.volume());
             d.kv(q + "type", static_cast<int>(s.segmentType()));
             d.kv(q + "ninlet", s.inletSegments().size());
+            dumpSegmentDevices(d, q, s);
+            SO_Q(q + "seglen", segs.segmentLength(s.segmentNumber()));
+            SO_Q(q + "segdz", segs.segmentDepthChange(s.segmentNumber()));
+            SO_Q(q + "index", segs.segmentNumberToIndex(s.segmentNumber()));
+            SO_Q(q + "perf_length", w.getConnections().segment_perf_length(s.segmentNumber()));
         }
     }
 }
@@ -343,6 +549,320 @@ inline void dumpGroup(Dump& d, const std::string& p, const Opm::Group& g) {
             d.kv(q + "uda", udaStr(*u));
     }
     d.kv(p + "gpmaint", g.gpmaint().has_value());
+    if (g.gpmaint().has_value()) {
+        const auto& m = *g.gpmaint();
+        d.kv(p + "gpmaint.ptarget", m.pressure_target());
+        d.kv(p + "gpmaint.prop", m.prop_constant());
+        d.kv(p + "gpmaint.time", m.time_constant());
+        d.kv(p + "gpmaint.flow", static_cast<int>(m.flow_target()));
+        const auto reg = m.region();
+        d.kv(p + "gpmaint.region", reg.has_value() ? reg->first + "/" + std::to_string(reg->second) : std::string("none"));
+    }
+    d.kv(p + "control_group", optS(g.control_group()));
+    d.kv(p + "flow_group", optS(g.flow_group()));
+    d.kv(p + "wellgroup", g.wellgroup());
+    d.kv(p + "numwells", g.numWells());
+    d.kv(p + "topup", g.topup_phase().has_value() ? std::to_string(static_cast<int>(*g.topup_phase())) : std::string("none"));
+    d.kv(p + "prod.cmode", static_cast<int>(pp.cmode));
+    d.kv(p + "prod.resv", pp.resv_target);
+    d.kv(p + "prod.name", pp.name);
+    for (const auto& [phase, ip] : g.injectionProperties()) {
+        const std::string q = p + "inj" + std::to_string(static_cast<int>(phase)) + ".";
+        d.kv(q + "name", ip.name);
+        d.kv(q + "phase", static_cast<int>(ip.phase));
+        d.kv(q + "reinj_group", optS(ip.reinj_group));
+        d.kv(q + "voidage_group", optS(ip.voidage_group));
+        d.kv(q + "guide", ip.guide_rate);
+        d.kv(q + "guidedef", static_cast<int>(ip.guide_rate_def));
+        d.kv(q + "availinj", g.injectionGroupControlAvailable(phase));
+    }
+}
+
+// per report step: everything the widened keyword families fill in ScheduleState
+inline void dumpStepExtras(Dump& d, const std::string& p, const Opm::Schedule& s, std::size_t step) {
+    const auto& st = s[step];
+    dumpTuning(d, p + "tuning.", st.tuning());
+    SO_Q(p + "max_next_tstep", st.max_next_tstep(false));
+    SO_Q(p + "max_next_tstep.tuning", st.max_next_tstep(true));
+    d.kv(p + "next_tstep", st.next_tstep.has_value() ? vh::hexF64(st.next_tstep->value()) + "/" + std::to_string(st.next_tstep->every_report()) : std::string("none"));
+    d.kv(p + "save", st.save());
+    d.kv(p + "whistctl.state", static_cast<int>(st.whistctl()));
+    d.kv(p + "bhpdef.prod", optD(st.bhp_defaults().prod_target));
+    d.kv(p + "bhpdef.inj", optD(st.bhp_defaults().inj_limit));
+    d.kv(p + "has_gpmaint", st.has_gpmaint());
+    d.kv(p + "hasAnalyticalAquifers", st.hasAnalyticalAquifers());
+    {   // DRSDT / DRVDT / DRSDTR / DRVDTR / DRSDTCON / VAPPARS
+        const auto& ov = st.oilvap();
+        d.kv(p + "oilvap.defined", ov.defined());
+        d.kv(p + "oilvap.nreg", ov.numPvtRegions());
+        SO_Q(p + "oilvap.drsdt", ov.drsdtActive());
+        SO_Q(p + "oilvap.drvdt", ov.drvdtActive());
+        SO_Q(p + "oilvap.conv", ov.drsdtConvective());
+        for (std::size_t r = 0; r < ov.numPvtRegions(); ++r) {
+            const std::string q = p + "oilvap.r" + std::to_string(r) + ".";
+            SO_Q(q + "maxdrsdt", ov.getMaxDRSDT(r));
+            SO_Q(q + "maxdrvdt", ov.getMaxDRVDT(r));
+            SO_Q(q + "option", ov.getOption(r));
+            SO_Q(q + "drsdtActive", ov.drsdtActive(r));
+            SO_Q(q + "drvdtActive", ov.drvdtActive(r));
+            SO_Q(q + "conv", ov.drsdtConvective(r));
+            SO_Q(q + "psi", ov.getPsi(r));
+            SO_Q(q + "omega", ov.getOmega(r));
+        }
+    }
+    {   // WLIST
+        const auto& wlm = st.wlist_manager();
+        d.kv(p + "wlist.size", wlm.WListSize());
+        for (const char* ln : { "*L1", "*L2", "*L3", "*L4", "*NONE" }) {
+            d.kv(p + "wlist." + ln + ".has", wlm.hasList(ln));
+            if (wlm.hasList(ln)) {
+                const auto& l = wlm.getList(ln);
+                d.kv(p + "wlist." + ln + ".name", l.getName());
+                d.kv(p + "wlist." + ln + ".size", l.size());
+                d.kv(p + "wlist." + ln + ".wells", join(l.wells()));
+            }
+            SO_Q(p + "wlist." + ln + ".match", join(wlm.wells(ln)));
+        }
+        SO_Q(p + "wlist.matchall", join(wlm.wells("*L*")));
+        for (const auto& wname : s.wellNames(step)) {
+            d.kv(p + "wlist.w." + wname + ".has", wlm.hasWList(wname));
+            SO_Q(p + "wlist.w." + wname + ".n", wlm.getNoWListsWell(wname));
+            if (wlm.hasWList(wname)) SO_Q(p + "wlist.w." + wname + ".names", join(wlm.getWListNames(wname)));
+        }
+    }
+    {   // GCONSALE / GCONSUMP
+        const auto& gs = st.gconsale();
+        const auto& gc = st.gconsump();
+        d.kv(p + "gconsale.size", gs.size());
+        d.kv(p + "gconsump.size", gc.size());
+        for (const auto& gname : s.groupNames(step)) {
+            d.kv(p + "gconsale." + gname + ".has", gs.has(gname));
+            if (gs.has(gname)) {
+                const auto& x = gs.get(gname);
+                const std::string q = p + "gconsale." + gname + ".";
+                d.kv(q + "target", udaStr(x.sales_target)); d.kv(q + "max", udaStr(x.max_sales_rate)); d.kv(q + "min", udaStr(x.min_sales_rate));
+                d.kv(q + "proc", static_cast<int>(x.max_proc)); d.kv(q + "undef", x.udq_undefined); d.kv(q + "units", x.unit_system.getName());
+                try { const auto e = gs.get(gname, Opm::SummaryState{}); d.kv(q + "eval", vh::hexF64(e.sales_target) + "/" + vh::hexF64(e.max_sales_rate) + "/" + vh::hexF64(e.min_sales_rate) + "/" + std::to_string(static_cast<int>(e.max_proc))); }
+                catch (const std::exception&) { d.kv(q + "eval", std::string("err")); }
+            }
+            d.kv(p + "gconsump." + gname + ".has", gc.has(gname));
+            if (gc.has(gname)) {
+                const auto& x = gc.get(gname);
+                const std::string q = p + "gconsump." + gname + ".";
+                d.kv(q + "rate", udaStr(x.consumption_rate)); d.kv(q + "import", udaStr(x.import_rate)); d.kv(q + "node", x.network_node);
+                d.kv(q + "undef", x.udq_undefined); d.kv(q + "units", x.unit_system.getName());
+                try { const auto e = gc.get(gname, Opm::SummaryState{}); d.kv(q + "eval", vh::hexF64(e.consumption_rate) + "/" + vh::hexF64(e.import_rate) + "/" + e.network_node); }
+                catch (const std::exception&) { d.kv(q + "eval", std::string("err")); }
+            }
+        }
+    }
+    {   // GUIDERAT, WGRUPCON, GCONPROD guide rates
+        const auto& gr = st.guide_rate();
+        d.kv(p + "guiderate.has_model", gr.has_model());
+        if (gr.has_model()) {
+            const auto& m = gr.model();
+            const std::string q = p + "guiderate.model.";
+            SO_Q(q + "target", static_cast<int>(m.target()));
+            SO_Q(q + "A", m.getA()); SO_Q(q + "B", m.getB()); SO_Q(q + "C", m.getC()); SO_Q(q + "D", m.getD()); SO_Q(q + "E", m.getE()); SO_Q(q + "F", m.getF());
+            SO_Q(q + "allow_increase", m.allow_increase());
+            SO_Q(q + "damping", m.damping_factor());
+            SO_Q(q + "delay", m.update_delay());
+            SO_Q(q + "eval", m.eval(120.0, 3400.0, 56.0));
+        }
+        for (const auto& wname : s.wellNames(step)) {
+            d.kv(p + "guiderate.w." + wname + ".has", gr.has_well(wname));
+            if (gr.has_well(wname)) {
+                const auto& x = gr.well(wname);
+                d.kv(p + "guiderate.w." + wname + ".v", vh::hexF64(x.guide_rate) + "/" + std::to_string(static_cast<int>(x.target)) + "/" + vh::hexF64(x.scaling_factor));
+            }
+        }
+        for (const auto& gname : s.groupNames(step)) {
+            d.kv(p + "guiderate.g." + gname + ".hasprod", gr.has_production_group(gname));
+            if (gr.has_production_group(gname)) {
+                const auto& x = gr.production_group(gname);
+                d.kv(p + "guiderate.g." + gname + ".prod", vh::hexF64(x.guide_rate) + "/" + std::to_string(static_cast<int>(x.target)));
+            }
+            for (const auto ph : { Opm::Phase::WATER, Opm::Phase::GAS, Opm::Phase::OIL }) {
+                const std::string q = p + "guiderate.g." + gname + ".inj" + std::to_string(static_cast<int>(ph));
+                d.kv(q + ".has", gr.has_injection_group(ph, gname));
+                if (gr.has_injection_group(ph, gname)) {
+                    const auto& x = gr.injection_group(ph, gname);
+                    d.kv(q, vh::hexF64(x.guide_rate) + "/" + std::to_string(static_cast<int>(x.target)));
+                }
+            }
+        }
+    }
+    {   // NETWORK: BRANPROP / NODEPROP / GRUPNET / NETBALAN
+        const auto& net = st.network();
+        d.kv(p + "network.standard", net.is_standard_network());
+        SO_Q(p + "network.nbranch", net.NoOfBranches());
+        SO_Q(p + "network.nnodes", net.NoOfNodes());
+        SO_Q(p + "network.nodes", join(net.node_names()));
+        try { std::string r; for (const auto& n : net.roots()) r += n.get().name() + ","; d.kv(p + "network.roots", r); } catch (const std::exception&) { d.kv(p + "network.roots", std::string("err")); }
+        std::vector<std::string> names = s.groupNames(step);
+        for (const auto& n : net.node_names()) if (std::find(names.begin(), names.end(), n) == names.end()) names.push_back(n);
+        for (const auto& n : names) {
+            d.kv(p + "network.N." + n + ".has", net.has_node(n));
+            if (!net.has_node(n)) continue;
+            const auto& node = net.node(n);
+            const std::string q = p + "network.N." + n + ".";
+            d.kv(q + "pressure", optD(node.terminal_pressure()));
+            d.kv(q + "choke", node.as_choke());
+            d.kv(q + "liftgas", node.add_gas_lift_gas());
+            d.kv(q + "target_group", optS(node.target_group()));
+            try {
+                const auto up = net.uptree_branch(n);
+                d.kv(q + "up", up.has_value() ? up->uptree_node() + "<-" + up->downtree_node() + " vfp=" + optI(up->vfp_table()) + " alqeq=" + std::to_string(static_cast<int>(up->alq_eq())) + " alq=" + optD(up->alq_value()) : std::string("none"));
+            } catch (const std::exception&) { d.kv(q + "up", std::string("err")); }
+            try { std::string dn; for (const auto& b : net.downtree_branches(n)) dn += b.downtree_node() + ","; d.kv(q + "down", dn); } catch (const std::exception&) { d.kv(q + "down", std::string("err")); }
+        }
+        const auto& bal = st.network_balance();
+        d.kv(p + "netbalan.mode", static_cast<int>(bal.mode()));
+        d.kv(p + "netbalan.interval", bal.interval());
+        d.kv(p + "netbalan.ptol", bal.pressure_tolerance());
+        d.kv(p + "netbalan.pmaxiter", bal.pressure_max_iter());
+        d.kv(p + "netbalan.thptol", bal.thp_tolerance());
+        d.kv(p + "netbalan.thpmaxiter", bal.thp_max_iter());
+        d.kv(p + "netbalan.target_err", optD(bal.target_balance_error()));
+        d.kv(p + "netbalan.max_err", optD(bal.max_balance_error()));
+        d.kv(p + "netbalan.min_tstep", optD(bal.min_tstep()));
+    }
+    {   // RPTRST / RPTSCHED / RPTSOL
+        const auto& rc = st.rst_config();
+        d.kv(p + "rstconfig.write", rc.write_rst_file.has_value() ? std::to_string(*rc.write_rst_file) : std::string("none"));
+        d.kv(p + "rstconfig.basic", optI(rc.basic));
+        d.kv(p + "rstconfig.freq", optI(rc.freq));
+        d.kv(p + "rstconfig.save", rc.save);
+        d.kv(p + "rstconfig.compositional", rc.compositional);
+        { std::string k; for (const auto& [m, v] : rc.keywords) k += m + "=" + std::to_string(v) + ","; d.kv(p + "rstconfig.keywords", k); }
+        std::vector<std::string> rpt;
+        for (const auto& [m, v] : st.rpt_config()) rpt.push_back(m + "=" + std::to_string(v));
+        d.kv(p + "rptconfig", joinSorted(rpt));
+        for (const char* m : { "FIP", "WELLS", "RESTART", "NOSUCH" }) d.kv(p + "rptconfig.contains." + m, st.rpt_config().contains(m));
+    }
+    {   // BCPROP / SOURCE / AQUFLUX / WELPI
+        std::size_t i = 0;
+        d.kv(p + "bcprop.size", st.bcprop.size());
+        for (const auto& f : st.bcprop) {
+            const std::string q = p + "bcprop.f" + std::to_string(i++) + ".";
+            d.kv(q + "index", f.index); d.kv(q + "type", static_cast<int>(f.bctype)); d.kv(q + "mech", static_cast<int>(f.bcmechtype));
+            d.kv(q + "comp", static_cast<int>(f.component)); d.kv(q + "rate", f.rate); d.kv(q + "pressure", optD(f.pressure)); d.kv(q + "temperature", optD(f.temperature));
+            d.kv(q + "hasmech", f.mechbcvalue.has_value());
+            if (f.mechbcvalue) {
+                std::string m;
+                for (double x : f.mechbcvalue->disp) m += vh::hexF64(x) + ","; m += "|";
+                for (double x : f.mechbcvalue->stress) m += vh::hexF64(x) + ","; m += "|";
+                for (bool x : f.mechbcvalue->fixeddir) m += x ? "1" : "0";
+                d.kv(q + "mechvalue", m);
+            }
+        }
+        i = 0;
+        d.kv(p + "source.size", st.source().size());
+        for (const auto& c : st.source()) {
+            const std::string q = p + "source.c" + std::to_string(i++) + ".";
+            d.kv(q + "ijk", std::to_string(c.ijk[0]) + "," + std::to_string(c.ijk[1]) + "," + std::to_string(c.ijk[2]));
+            d.kv(q + "comp", static_cast<int>(c.component)); d.kv(q + "rate", c.rate); d.kv(q + "hrate", optD(c.hrate)); d.kv(q + "temp", optD(c.temperature));
+            { const std::pair<std::array<int, 3>, Opm::SourceComponent> key{ c.ijk, c.component }; SO_Q(q + "lookup", st.source().rate(key)); }
+        }
+        std::vector<int> ids;
+        for (const auto& kv : st.aqufluxs) ids.push_back(kv.first);
+        std::sort(ids.begin(), ids.end());
+        d.kv(p + "aqufluxs.size", ids.size());
+        for (int id : ids) {
+            const auto& a = st.aqufluxs.at(id);
+            const std::string q = p + "aqufluxs.a" + std::to_string(id) + ".";
+            d.kv(q + "id", a.id); d.kv(q + "flux", a.flux); d.kv(q + "salt", a.salt_concentration); d.kv(q + "active", a.active);
+            d.kv(q + "temp", optD(a.temperature)); d.kv(q + "pressure", optD(a.datum_pressure));
+        }
+        std::vector<std::string> pi;
+        for (const auto& [w, v] : st.target_wellpi) pi.push_back(w + ":" + vh::hexF64(v));
+        d.kv(p + "target_wellpi", joinSorted(pi));
+    }
+    {   // LIFTOPT / GLIFTOPT / WLIFTOPT
+        const auto& glo = st.glo();
+        SO_Q(p + "glo.increment", glo.gaslift_increment());
+        SO_Q(p + "glo.mineco", glo.min_eco_gradient());
+        SO_Q(p + "glo.minwait", glo.min_wait());
+        SO_Q(p + "glo.allnewton", glo.all_newton());
+        SO_Q(p + "glo.nwells", glo.num_wells());
+        for (const auto& wname : s.wellNames(step)) {
+            d.kv(p + "glo.w." + wname + ".has", glo.has_well(wname));
+            if (!glo.has_well(wname)) continue;
+            const auto& x = glo.well(wname);
+            const std::string q = p + "glo.w." + wname + ".";
+            d.kv(q + "name", x.name()); d.kv(q + "use", x.use_glo()); d.kv(q + "max", optD(x.max_rate())); d.kv(q + "weight", x.weight_factor());
+            d.kv(q + "incweight", x.inc_weight_factor()); d.kv(q + "min", x.min_rate()); d.kv(q + "extra", x.alloc_extra_gas());
+        }
+        for (const auto& gname : s.groupNames(step)) {
+            d.kv(p + "glo.g." + gname + ".has", glo.has_group(gname));
+            if (!glo.has_group(gname)) continue;
+            const auto& x = glo.group(gname);
+            d.kv(p + "glo.g." + gname + ".v", x.name() + "/" + optD(x.max_lift_gas()) + "/" + optD(x.max_total_gas()));
+        }
+    }
+    {   // VFPPROD / VFPINJ (held in an unordered map: sorted by table number)
+        auto prod = st.vfpprod();
+        std::sort(prod.begin(), prod.end(), [](const auto& a, const auto& b) { return a.get().getTableNum() < b.get().getTableNum(); });
+        d.kv(p + "vfpprod.size", prod.size());
+        for (const auto& ref : prod) {
+            const auto& t = ref.get();
+            const std::string q = p + "vfpprod.T" + std::to_string(t.getTableNum()) + ".";
+            d.kv(q + "datum", t.getDatumDepth()); d.kv(q + "flo", static_cast<int>(t.getFloType())); d.kv(q + "wfr", static_cast<int>(t.getWFRType()));
+            d.kv(q + "gfr", static_cast<int>(t.getGFRType())); d.kv(q + "alq", static_cast<int>(t.getALQType()));
+            d.kv(q + "floaxis", vecD(t.getFloAxis())); d.kv(q + "thpaxis", vecD(t.getTHPAxis())); d.kv(q + "wfraxis", vecD(t.getWFRAxis()));
+            d.kv(q + "gfraxis", vecD(t.getGFRAxis())); d.kv(q + "alqaxis", vecD(t.getALQAxis())); d.kv(q + "table", vecD(t.getTable()));
+            { std::string sh; for (auto x : t.shape()) sh += std::to_string(x) + ","; d.kv(q + "shape", sh); }
+        }
+        auto inj = st.vfpinj();
+        std::sort(inj.begin(), inj.end(), [](const auto& a, const auto& b) { return a.get().getTableNum() < b.get().getTableNum(); });
+        d.kv(p + "vfpinj.size", inj.size());
+        for (const auto& ref : inj) {
+            const auto& t = ref.get();
+            const std::string q = p + "vfpinj.T" + std::to_string(t.getTableNum()) + ".";
+            d.kv(q + "datum", t.getDatumDepth()); d.kv(q + "flo", static_cast<int>(t.getFloType()));
+            d.kv(q + "floaxis", vecD(t.getFloAxis())); d.kv(q + "thpaxis", vecD(t.getTHPAxis())); d.kv(q + "table", vecD(t.getTable()));
+            { std::string sh; for (auto x : t.shape()) sh += std::to_string(x) + ","; d.kv(q + "shape", sh); }
+        }
+    }
+    {   // WPAVE (global), wellgroup events, geo keywords (MULTFLT, MULTX, ... in SCHEDULE)
+        const auto& a = st.pavg();
+        d.kv(p + "pavg", vh::hexF64(a.inner_weight()) + "/" + vh::hexF64(a.conn_weight()) + "/" + std::to_string(a.open_connections()) + "/" + std::to_string(static_cast<int>(a.depth_correction())) + "/" + std::to_string(a.use_porv()));
+        const auto& wge = st.wellgroup_events();
+        auto names = s.wellNames(step);
+        for (const auto& g : s.groupNames(step)) names.push_back(g);
+        for (const auto& n : names) {
+            d.kv(p + "wgevents.X." + n + ".has", wge.has(n));
+            if (!wge.has(n)) continue;
+            std::string bits;
+            for (uint64_t bit = 1; bit != 0 && bit <= (1ull << 40); bit <<= 1) if (wge.hasEvent(n, bit)) bits += std::to_string(bit) + ",";
+            d.kv(p + "wgevents.X." + n + ".bits", bits);
+        }
+        d.kv(p + "geo.size", st.geo_keywords().size());
+        for (const auto& kw : st.geo_keywords()) {
+            std::ostringstream os; os << kw;
+            std::string text = os.str();
+            for (auto& ch : text) if (ch == '\n') ch = ' ';
+            d.kv(p + "geo.kw", text);
+        }
+    }
+    // ACTIONX bodies and the full condition structure (an action re-defined under the same name
+    // at a later step must keep the later definition in the copy)
+    for (const auto& a : st.actions()) {
+        const std::string q = p + "action." + a.name() + ".";
+        std::string conds;
+        for (const auto& c : a.conditions()) {
+            conds += c.lhs.quantity + "(" + join(c.lhs.args) + ")" + c.cmp_string + "[" + std::to_string(static_cast<int>(c.cmp)) + "]" + c.rhs.quantity + "(" + join(c.rhs.args) + ")"
+                   + " logic=" + std::to_string(static_cast<int>(c.logic)) + " paren=" + std::to_string(c.left_paren) + std::to_string(c.right_paren) + ";";
+        }
+        d.kv(q + "conds", conds);
+        SO_Q(q + "kwstrings", join(a.keyword_strings()));
+        for (auto it = a.begin(); it != a.end(); ++it) {
+            std::ostringstream os; os << *it;
+            std::string text = os.str();
+            for (auto& ch : text) if (ch == '\n') ch = ' ';
+            d.kv(q + "kw", text);
+        }
+    }
 }
 
 inline std::string dumpSchedule(const Opm::Schedule& s) {
@@ -433,8 +953,189 @@ inline std::string dumpSchedule(const Opm::Schedule& s) {
             d.kv(p + "action.conditions", conds);
             { std::unordered_set<std::string> req; a.required_summary(req); d.kv(p + "action.required", joinSorted(std::vector<std::string>(req.begin(), req.end()))); }
         }
+        dumpStepExtras(d, p, s, step);
     }
     return d.str();
+}
+
+inline std::string nncStr(const std::vector<Opm::NNCdata>& v) { std::string s; for (const auto& n : v) s += std::to_string(n.cell1) + ">" + std::to_string(n.cell2) + ":" + vh::hexF64(n.trans) + ","; return s; }
+
+// static state reached by the widened decks: tables of every region, aquifers, faults, NNC, THPRES,
+// BCCON, tracers, ROCKCOMP/ROCKTAB, PLYSHLOG, JFUNC, ENDSCALE
+inline void dumpEclipseStateExtras(Dump& d, const Opm::EclipseState& es) {
+    const auto& rs = es.runspec();
+    const auto& tm = es.getTableManager();
+    d.kv("rs.satnodes", rs.tabdims().getNumSatNodes()); d.kv("rs.pnodes", rs.tabdims().getNumPressureNodes()); d.kv("rs.ntfip", rs.tabdims().getNumFIPRegions());
+    d.kv("rs.rsnodes", rs.tabdims().getNumRSNodes());
+    d.kv("rs.phase.oil", rs.phases().active(Opm::Phase::OIL)); d.kv("rs.phase.gas", rs.phases().active(Opm::Phase::GAS)); d.kv("rs.phase.water", rs.phases().active(Opm::Phase::WATER));
+    d.kv("rs.phase.polymer", rs.phases().active(Opm::Phase::POLYMER));
+    d.kv("rs.wsegdims", std::to_string(rs.wellSegmentDimensions().maxSegmentedWells()) + "/" + std::to_string(rs.wellSegmentDimensions().maxSegmentsPerWell()) + "/" + std::to_string(rs.wellSegmentDimensions().maxLateralBranchesPerWell()));
+    d.kv("rs.welldims", std::to_string(rs.wellDimensions().maxWellsPerGroup()) + "/" + std::to_string(rs.wellDimensions().maxGroupsInField()) + "/" + std::to_string(rs.wellDimensions().maxWellListsPrWell()) + "/" + std::to_string(rs.wellDimensions().maxDynamicWellLists()));
+    d.kv("rs.aqudims", std::to_string(rs.aquiferDimensions().maxAnalyticAquifers()) + "/" + std::to_string(rs.aquiferDimensions().maxAnalyticAquiferConnections()));
+    d.kv("rs.tracers.water", rs.tracers().water_tracers());
+    d.kv("rs.endscale", rs.endpointScaling().operator bool());
+    d.kv("rs.endscale.flags", std::to_string(rs.endpointScaling().directional()) + std::to_string(rs.endpointScaling().reversible()) + std::to_string(rs.endpointScaling().twopoint()) + std::to_string(rs.endpointScaling().threepoint()));
+    d.kv("rs.nupcol", rs.nupcol().value());
+    d.kv("rs.eclphasemask", rs.eclPhaseMask());
+    d.kv("rs.satfunc.family", static_cast<int>(rs.saturationFunctionControls().family()));
+    d.kv("tm.numfip", tm.numFIPRegions());
+    d.kv("tm.useEqlnum", tm.useEqlnum()); d.kv("tm.useJFunc", tm.useJFunc()); d.kv("tm.useShrate", tm.useShrate());
+    SO_Q("tm.rtemp", tm.rtemp());
+    d.kv("tm.aqudims", std::to_string(tm.getAqudims().getNumAqunum()) + "/" + std::to_string(tm.getAqudims().getNumInfluenceTablesCT()) + "/" + std::to_string(tm.getAqudims().getNumAnalyticAquifers()));
+    for (const auto& [name, tc] : tm.getSimpleTables()) dumpTableContainer(d, "tm.simple." + name + ".", tc);
+    {
+        std::size_t i = 0;
+        for (const auto& r : tm.getPvtwTable()) d.kv("tm.pvtw.r" + std::to_string(i++), vh::hexF64(r.reference_pressure) + "/" + vh::hexF64(r.volume_factor) + "/" + vh::hexF64(r.compressibility) + "/" + vh::hexF64(r.viscosity) + "/" + vh::hexF64(r.viscosibility));
+        i = 0;
+        for (const auto& r : tm.getDensityTable()) d.kv("tm.density.r" + std::to_string(i++), vh::hexF64(r.oil) + "/" + vh::hexF64(r.water) + "/" + vh::hexF64(r.gas));
+        i = 0;
+        for (const auto& r : tm.getRockTable()) d.kv("tm.rock.r" + std::to_string(i++), vh::hexF64(r.reference_pressure) + "/" + vh::hexF64(r.compressibility));
+    }
+    auto pvtx = [&](const std::string& p, const auto& tables) {
+        d.kv(p + "n", tables.size());
+        for (std::size_t t = 0; t < tables.size(); ++t) {
+            const auto& x = tables[t];
+            const std::string q = p + "r" + std::to_string(t) + ".";
+            d.kv(q + "size", x.size());
+            try {
+                dumpSimpleTable(d, q + "sat.", x.getSaturatedTable());
+                for (std::size_t k = 0; k < x.size(); ++k) { d.kv(q + "arg" + std::to_string(k), x.getArgValue(k)); dumpSimpleTable(d, q + "u" + std::to_string(k) + ".", x.getUnderSaturatedTable(k)); }
+            } catch (const std::exception&) { d.kv(q + "tables", std::string("err")); }
+        }
+    };
+    pvtx("tm.pvto.", tm.getPvtoTables());
+    pvtx("tm.pvtg.", tm.getPvtgTables());
+    if (tm.hasTables("PLYSHLOG")) {
+        const auto& tc = tm.getPlyshlogTables();
+        for (const auto& [idx, ptr] : tc.tables()) {
+            if (!ptr) continue;
+            const auto& t = tc.getTable<Opm::PlyshlogTable>(idx);
+            const std::string q = "tm.plyshlog.n" + std::to_string(idx) + ".";
+            d.kv(q + "refconc", t.getRefPolymerConcentration()); d.kv(q + "hassal", t.hasRefSalinity()); d.kv(q + "hastemp", t.hasRefTemperature());
+            d.kv(q + "refsal", t.getRefSalinity()); d.kv(q + "reftemp", t.getRefTemperature());
+        }
+    }
+    // (ROCKTAB: the columns are covered by the generic sweep over getSimpleTables() above.  The copy
+    //  holds plain SimpleTable objects for ROCKTAB - TableManager::splitSimpleTable looks for the key
+    //  "ROCKMAP", not "ROCKTAB" - so RocktabTable::m_isDirectional cannot be queried on it without
+    //  reading past the object; no probe here.)
+    if (tm.useJFunc()) {
+        const auto& j = tm.getJFunc();
+        SO_Q("tm.jfunc.flag", static_cast<int>(j.flag())); SO_Q("tm.jfunc.dir", static_cast<int>(j.direction()));
+        SO_Q("tm.jfunc.alpha", j.alphaFactor()); SO_Q("tm.jfunc.beta", j.betaFactor()); SO_Q("tm.jfunc.go", j.goSurfaceTension()); SO_Q("tm.jfunc.ow", j.owSurfaceTension());
+    }
+    const auto& sim = es.getSimulationConfig();
+    d.kv("sim.diffusive", sim.isDiffusive()); d.kv("sim.nonnc", sim.useNONNC()); d.kv("sim.disgasw", sim.hasDISGASW()); d.kv("sim.vapwat", sim.hasVAPWAT());
+    d.kv("sim.enthalpy", sim.useEnthalpy()); d.kv("sim.precsalt", sim.hasPRECSALT());
+    {
+        const auto& rc = sim.rock_config();
+        d.kv("rock.active", rc.active()); d.kv("rock.rocknum", rc.rocknum_property()); d.kv("rock.ntab", rc.num_rock_tables());
+        d.kv("rock.hyst", static_cast<int>(rc.hysteresis_mode())); d.kv("rock.watcomp", rc.water_compaction()); d.kv("rock.dispersion", rc.dispersion());
+        std::size_t i = 0;
+        for (const auto& c : rc.comp()) d.kv("rock.comp" + std::to_string(i++), vh::hexF64(c.pref) + "/" + vh::hexF64(c.compressibility));
+    }
+    {
+        const auto& tp = sim.getThresholdPressure();
+        d.kv("thpres.active", tp.active()); d.kv("thpres.restart", tp.restart()); d.kv("thpres.irrev", tp.irreversible()); d.kv("thpres.ftsize", tp.ftSize());
+        for (int r1 = 1; r1 <= 3; ++r1) for (int r2 = 1; r2 <= 3; ++r2) {
+            const std::string q = "thpres." + std::to_string(r1) + "_" + std::to_string(r2) + ".";
+            SO_Q(q + "barrier", tp.hasRegionBarrier(r1, r2));
+            SO_Q(q + "has", tp.hasThresholdPressure(r1, r2));
+            SO_Q(q + "v", tp.getThresholdPressure(r1, r2));
+        }
+    }
+    {
+        std::size_t i = 0;
+        d.kv("bccon.size", sim.bcconfig().size());
+        for (const auto& b : sim.bcconfig()) d.kv("bccon.r" + std::to_string(i++), std::to_string(b.index) + ":" + std::to_string(b.i1) + "-" + std::to_string(b.i2) + "," + std::to_string(b.j1) + "-" + std::to_string(b.j2) + "," + std::to_string(b.k1) + "-" + std::to_string(b.k2) + " dir=" + std::to_string(static_cast<int>(b.dir)));
+    }
+    {   // aquifers
+        const auto& aq = es.aquifer();
+        d.kv("aq.hasnum", aq.hasNumericalAquifer()); d.kv("aq.hasana", aq.hasAnalyticalAquifer());
+        for (int id = 1; id <= 5; ++id) { d.kv("aq.has" + std::to_string(id), aq.hasAquifer(id)); d.kv("aq.hasana" + std::to_string(id), aq.hasAnalyticalAquifer(id)); }
+        for (const auto& f : aq.fetp()) {
+            const std::string q = "aq.fetp" + std::to_string(f.aquiferID) + ".";
+            d.kv(q + "pvt", f.pvttableID); d.kv(q + "J", f.prod_index); d.kv(q + "ct", f.total_compr); d.kv(q + "V0", f.initial_watvolume); d.kv(q + "d0", f.datum_depth);
+            d.kv(q + "p0", optD(f.initial_pressure)); d.kv(q + "T0", optD(f.initial_temperature)); d.kv(q + "tc", f.timeConstant()); d.kv(q + "rho", f.waterDensity()); d.kv(q + "mu", f.waterViscosity());
+        }
+        for (const auto& c : aq.ct()) {
+            const std::string q = "aq.ct" + std::to_string(c.aquiferID) + ".";
+            d.kv(q + "inftab", c.inftableID); d.kv(q + "pvt", c.pvttableID); d.kv(q + "poro", c.porosity); d.kv(q + "d0", c.datum_depth); d.kv(q + "ct", c.total_compr);
+            d.kv(q + "r", c.inner_radius); d.kv(q + "perm", c.permeability); d.kv(q + "h", c.thickness); d.kv(q + "angle", c.angle_fraction);
+            d.kv(q + "p0", optD(c.initial_pressure)); d.kv(q + "T0", optD(c.initial_temperature)); d.kv(q + "td", vecD(c.dimensionless_time)); d.kv(q + "pd", vecD(c.dimensionless_pressure));
+            d.kv(q + "tc", c.timeConstant()); d.kv(q + "beta", c.influxConstant()); d.kv(q + "rho", c.waterDensity()); d.kv(q + "mu", c.waterViscosity());
+        }
+        {
+            std::vector<int> ids; for (const auto& kv : aq.connections().data()) ids.push_back(kv.first);
+            std::sort(ids.begin(), ids.end());
+            d.kv("aq.ancon.active", aq.connections().active());
+            for (int id : ids) {
+                std::string e;
+                for (const auto& c : aq.connections().getConnections(id)) e += std::to_string(c.aquiferID) + ":" + std::to_string(c.global_index) + ":" + vh::hexF64(c.influx_coeff) + ":" + vh::hexF64(c.effective_facearea) + ":" + std::to_string(static_cast<int>(c.face_dir)) + ",";
+                d.kv("aq.ancon" + std::to_string(id), e);
+            }
+        }
+        {
+            std::vector<int> ids; for (const auto& kv : aq.aquflux()) ids.push_back(kv.first);
+            std::sort(ids.begin(), ids.end());
+            d.kv("aq.flux.size", aq.aquflux().size());
+            for (int id : ids) { d.kv("aq.flux.has" + std::to_string(id), aq.aquflux().hasAquifer(id)); }
+            for (const auto& kv : aq.aquflux()) if (kv.first == (ids.empty() ? -1 : ids.front())) {
+                const auto& a = kv.second;
+                d.kv("aq.flux.first", std::to_string(a.id) + ":" + vh::hexF64(a.flux) + ":" + vh::hexF64(a.salt_concentration) + ":" + std::to_string(a.active) + ":" + optD(a.temperature) + ":" + optD(a.datum_pressure));
+            }
+        }
+        const auto& num = aq.numericalAquifers();
+        d.kv("aq.num.size", num.size());
+        for (const auto& [id, a] : num.aquifers()) {
+            const std::string q = "aq.num" + std::to_string(id) + ".";
+            d.kv(q + "id", a.id()); d.kv(q + "ncells", a.numCells()); d.kv(q + "nconn", a.numConnections());
+            for (std::size_t i = 0; i < a.numCells(); ++i) {
+                const auto* c = a.getCellPrt(i);
+                const std::string r = q + "cell" + std::to_string(i) + ".";
+                d.kv(r + "ijk", std::to_string(c->I) + "," + std::to_string(c->J) + "," + std::to_string(c->K) + " gi=" + std::to_string(c->global_index) + " rec=" + std::to_string(c->record_id) + " aq=" + std::to_string(c->aquifer_id));
+                d.kv(r + "geom", vh::hexF64(c->area) + "/" + vh::hexF64(c->length) + "/" + vh::hexF64(c->porosity) + "/" + vh::hexF64(c->permeability) + "/" + vh::hexF64(c->depth) + "/" + optD(c->init_pressure));
+                d.kv(r + "tabs", std::to_string(c->pvttable) + "/" + std::to_string(c->sattable));
+                d.kv(r + "derived", vh::hexF64(c->cellVolume()) + "/" + vh::hexF64(c->poreVolume()) + "/" + vh::hexF64(c->transmissiblity()));
+            }
+            std::size_t i = 0;
+            for (const auto& c : a.connections())
+                d.kv(q + "conn" + std::to_string(i++), std::to_string(c.aquifer_id) + ":" + std::to_string(c.I) + "," + std::to_string(c.J) + "," + std::to_string(c.K) + " gi=" + std::to_string(c.global_index) + " dir=" + std::to_string(static_cast<int>(c.face_dir)) + " m=" + vh::hexF64(c.trans_multipler) + " opt=" + std::to_string(c.trans_option) + " act=" + std::to_string(c.connect_active_cell) + " ve=" + vh::hexF64(c.ve_frac_relperm) + "/" + vh::hexF64(c.ve_frac_cappress));
+        }
+        try { std::string ids; for (auto x : num.allAquiferCellIds()) ids += std::to_string(x) + ","; d.kv("aq.num.cellids", ids); } catch (const std::exception&) { d.kv("aq.num.cellids", std::string("err")); }
+    }
+    for (const auto& t : es.tracer()) {
+        const std::string q = "tracer." + t.name + ".";
+        d.kv(q + "unit", t.unit_string); d.kv(q + "phase", static_cast<int>(t.phase));
+        d.kv(q + "free", t.free_concentration.has_value() ? vecD(*t.free_concentration) : std::string("none"));
+        d.kv(q + "sol", t.solution_concentration.has_value() ? vecD(*t.solution_concentration) : std::string("none"));
+        d.kv(q + "free_tvdp", t.free_tvdp.has_value()); d.kv(q + "sol_tvdp", t.solution_tvdp.has_value());
+        if (t.free_tvdp) dumpSimpleTable(d, q + "free_tvdp.", *t.free_tvdp);
+        if (t.solution_tvdp) dumpSimpleTable(d, q + "sol_tvdp.", *t.solution_tvdp);
+    }
+    for (std::size_t i = 0; i < es.getFaults().size(); ++i) {
+        const auto& f = es.getFaults().getFault(i);
+        const std::string q = "fault." + f.getName() + ".";
+        d.kv(q + "mult", f.getTransMult());
+        std::size_t k = 0;
+        for (const auto& face : f) { std::string e = "dir=" + std::to_string(static_cast<int>(face.getDir())) + ":"; for (auto gi : face) e += std::to_string(gi) + ","; d.kv(q + "face" + std::to_string(k++), e); }
+    }
+    d.kv("nnc.in", nncStr(es.getInputNNC().input()));
+    d.kv("nnc.edit", nncStr(es.getInputNNC().edit()));
+    d.kv("nnc.editr", nncStr(es.getInputNNC().editr()));
+    d.kv("nnc.pinch", nncStr(es.getPinchNNC()));
+    {
+        const auto& trm = es.getTransMult();
+        for (std::size_t gi : { std::size_t{0}, std::size_t{1}, std::size_t{5}, std::size_t{17} })
+            for (const auto dir : { Opm::FaceDir::XPlus, Opm::FaceDir::YPlus, Opm::FaceDir::ZPlus, Opm::FaceDir::XMinus })
+                SO_Q("transmult." + std::to_string(gi) + "." + std::to_string(static_cast<int>(dir)), trm.getMultiplier(gi, dir));
+    }
+    const auto& ic = es.getInitConfig();
+    if (ic.hasEquil()) for (std::size_t i = 0; i < ic.getEquil().size(); ++i) {
+        const auto& r = ic.getEquil().getRecord(i);
+        d.kv("init.equil.r" + std::to_string(i), vh::hexF64(r.waterOilContactCapillaryPressure()) + "/" + vh::hexF64(r.gasOilContactCapillaryPressure()) + "/" + std::to_string(r.liveOilInitConstantRs()) + "/" + std::to_string(r.wetGasInitConstantRv()) + "/" + std::to_string(r.initializationTargetAccuracy()));
+    }
+    d.kv("init.gravity", ic.hasGravity());
 }
 
 inline std::string dumpEclipseState(const Opm::EclipseState& es) {
@@ -521,6 +1222,7 @@ inline std::string dumpEclipseState(const Opm::EclipseState& es) {
     d.kv("aquifer.fetp", es.aquifer().fetp().size());
     d.kv("tracer", es.tracer().size());
     d.kv("lgrs", es.getLgrs().size());
+    dumpEclipseStateExtras(d, es);
     return d.str();
 }
 
@@ -740,38 +1442,211 @@ inline void checkLoaded(const std::string& tag, const Loaded& L, vh::PropLog& pl
 
 inline std::string fmtD(double v) { char b[64]; std::snprintf(b, sizeof b, "%.6g", v); return b; }
 
+// Generated decks.  Every keyword family is switched on independently at random so that most decks
+// carry a handful of them; stats["deck.kw.<KW>"] counts how often each keyword was written (the
+// input distribution of property mode; see prop_stats.json).
 inline std::string genDeck(vh::Rng& r, std::map<std::string, long>& stats) {
     std::ostringstream o;
+    auto kw = [&](const std::string& name) -> std::ostream& { stats["deck.kw." + name]++; o << name << "\n"; return o; };
+    using SV = std::vector<std::string>;
     const int nx = r.range(3, 6), ny = r.range(3, 6), nz = r.range(2, 4);
-    const int nwells = r.range(1, 5), ngroups = r.range(1, 3);
-    const bool network = r.coin(1, 3), extnet = r.coin();
+    const int N = nx * ny * nz;
+    const bool msw = r.coin(1, 3);
+    const int nplain = r.range(1, 5);
+    const int nwells = nplain + (msw ? 1 : 0), ngroups = r.range(1, 3);
+    const bool network = r.coin(1, 3), extnet = r.coin(2, 3);
     const bool field = r.coin(1, 3);
-    o << "RUNSPEC\nTITLE\n gen " << r.below(1000) << "\n\nDIMENS\n " << nx << ' ' << ny << ' ' << nz << " /\n";
-    o << "OIL\nWATER\nGAS\n" << (r.coin() ? "DISGAS\n" : "") << (r.coin(1, 4) ? "VAPOIL\n" : "");
+    const bool live = r.coin();                       // PVTO/PVTG instead of PVDO/PVDG
+    const int ntsfun = r.coin() ? 1 : r.range(2, 3);
+    const int ntpvt = r.coin() ? 1 : (r.coin(1, 3) ? r.range(9, 10) : r.range(2, 3));
+    const int nteql = r.coin(2, 3) ? 1 : 2;
+    const int ntfip = r.range(1, 3);
+    const bool anaq = r.coin(1, 3), numaq = r.coin(1, 4);
+    const bool tracers = r.coin(1, 3);
+    const int ntrocc = r.coin(1, 4) ? r.range(1, 2) : 0;
+    const bool polymer = r.coin(1, 4);
+    const bool bc = r.coin(1, 3);
+    const bool faults = r.coin(1, 3);
+    const bool vfp = r.coin(1, 2);
+    const bool endscale = r.coin(1, 4);
+    const bool thpres = nteql == 2 && r.coin();
+    const bool liftopt = r.coin(1, 3);
+    const double len = field ? 3.28 : 1.0;            // rough unit factors, only to stay plausible
+    const double top = 2000 + r.below(500);
+    const double dz = 5 + r.below(20);
+    auto cellList = [&](int nreg) { std::string s; for (int c = 0; c < N; ++c) { s += " " + std::to_string(1 + (c * nreg) / N); if (c % 20 == 19) s += "\n"; } return s; };
+
+    kw("RUNSPEC"); kw("TITLE") << " gen " << r.below(1000) << "\n\n";
+    kw("DIMENS") << " " << nx << ' ' << ny << ' ' << nz << " /\n";
+    o << "OIL\nWATER\nGAS\n";
+    const bool disgas = live || r.coin(), vapoil = live || r.coin(1, 4);
+    if (disgas) kw("DISGAS");
+    if (vapoil) kw("VAPOIL");
+    if (polymer) kw("POLYMER");
+    if (r.coin(1, 6)) kw("DIFFUSE");
     o << (field ? "FIELD\n" : "METRIC\n");
-    o << "START\n " << r.range(1, 28) << " '" << r.pick(std::vector<std::string>{"JAN", "MAR", "JUN", "OCT", "DEC"}) << "' " << r.range(1990, 2030) << " /\n";
-    o << "WELLDIMS\n " << nwells + 2 << " " << nz + 3 << " " << ngroups + 2 << " " << nwells + 2 << " /\n";
-    o << "TABDIMS\n 1 1 20 20 " << r.range(1, 3) << " /\nEQLDIMS\n 1 /\n";
-    o << "UDQDIMS\n 10 10 4 4 4 4 4 4 4 / \nACTDIMS\n 4 10 80 3 /\n";
+    kw("START") << " " << r.range(1, 28) << " '" << r.pick(SV{"JAN", "MAR", "JUN", "OCT", "DEC"}) << "' " << r.range(1990, 2030) << " /\n";
+    kw("WELLDIMS") << " " << nwells + 2 << " " << nz + 3 << " " << ngroups + 2 << " " << nwells + 2 << " 5 10 5 4 3 0 1 1 /\n";
+    if (msw) kw("WSEGDIMS") << " 2 " << 2 * nz + 4 << " 3 /\n";
+    kw("TABDIMS") << " " << ntsfun << " " << ntpvt << " 20 20 " << ntfip << " 20 /\n";
+    kw("EQLDIMS") << " " << nteql << " /\n";
+    kw("REGDIMS") << " " << ntfip << " /\n";
+    if (anaq || numaq) kw("AQUDIMS") << " 2 2 2 36 4 " << 4 * N << " /\n";
+    if (tracers) kw("TRACERS") << " 1 1 1 0 /\n";
+    if (ntrocc) kw("ROCKCOMP") << " " << r.pick(SV{"REVERS", "IRREVERS"}) << " " << ntrocc << " " << (r.coin() ? "YES" : "NO") << " /\n";
+    kw("UDQDIMS") << " 10 10 4 4 4 4 4 4 4 / \n";
+    kw("ACTDIMS") << " 4 10 80 3 /\n";
     if (network) {
-        if (extnet) o << "NETWORK\n " << r.range(3, 9) << " " << r.range(2, 8) << " /\n";
+        if (extnet) kw("NETWORK") << " " << r.range(4, 9) << " " << r.range(3, 8) << " /\n";
         stats["gen.network"]++;
     }
-    if (r.coin(1, 4)) { o << "UNIFOUT\n"; }
-    if (r.coin(1, 4)) { o << "FMTOUT\n"; }
-    o << "\nGRID\nDX\n " << nx * ny * nz << "*" << fmtD(50 + r.below(100)) << " /\nDY\n " << nx * ny * nz << "*" << fmtD(50 + r.below(100)) << " /\nDZ\n " << nx * ny * nz << "*" << fmtD(5 + r.below(20)) << " /\n";
-    o << "TOPS\n " << nx * ny << "*" << fmtD(2000 + r.below(500)) << " /\nPORO\n " << nx * ny * nz << "*0." << r.range(10, 35) << " /\n";
-    o << "PERMX\n " << nx * ny * nz << "*" << r.range(10, 900) << " /\nPERMY\n " << nx * ny * nz << "*" << r.range(10, 900) << " /\nPERMZ\n " << nx * ny * nz << "*" << r.range(1, 90) << " /\n";
-    o << "\nPROPS\nSWOF\n 0.2 0 1 0\n 0.5 0." << r.range(1, 5) << " 0.3 0\n 1.0 1 0 0 /\nSGOF\n 0 0 1 0\n 0.4 0." << r.range(1, 6) << " 0.2 0\n 0.8 1 0 0 /\n";
-    o << "DENSITY\n " << fmtD(800 + r.below(100)) << " " << fmtD(1000 + r.below(50)) << " " << fmtD(0.8 + r.unit()) << " /\n";
-    o << "PVTW\n 270 1.03 4.6E-5 0.3 0 /\nROCK\n 270 " << fmtD(1e-5 * (1 + r.below(9))) << " /\n";
-    o << "PVDG\n 50 0.02 0.01\n 100 0.01 0.015\n 300 0.004 0.02 /\nPVDO\n 50 1.1 1.0\n 300 1.0 1.2 /\n";
-    o << "\nSOLUTION\nEQUIL\n " << fmtD(2050 + r.below(100)) << " " << fmtD(200 + r.below(100)) << " " << fmtD(2200 + r.below(100)) << " 0 " << fmtD(2000 + r.below(40)) << " 0 1 0 0 /\n";
-    // SUMMARY
-    o << "\nSUMMARY\n";
-    const std::vector<std::string> fvec{"FOPR", "FOPT", "FWPR", "FGPR", "FWIR", "FPR", "FWCT", "FGOR"};
-    const std::vector<std::string> wvec{"WOPR", "WWPR", "WGPR", "WBHP", "WTHP", "WWCT", "WOPT", "WWIR"};
-    const std::vector<std::string> gvec{"GOPR", "GWPR", "GGPR", "GOPT"};
+    if (vfp) { kw("VFPPDIMS") << " 5 3 3 3 2 4 /\n"; kw("VFPIDIMS") << " 5 3 4 /\n"; }
+    if (endscale) kw("ENDSCALE") << (r.coin() ? " /\n" : " 'NODIR' 'REVERS' /\n");
+    if (faults) kw("FAULTDIM") << " 4 /\n";
+    if (r.coin(1, 4)) { kw("UNIFOUT"); }
+    if (r.coin(1, 4)) { kw("FMTOUT"); }
+
+    kw("GRID");
+    o << "DX\n " << N << "*" << fmtD(50 + r.below(100)) << " /\nDY\n " << N << "*" << fmtD(50 + r.below(100)) << " /\nDZ\n " << N << "*" << fmtD(dz) << " /\n";
+    o << "TOPS\n " << nx * ny << "*" << fmtD(top) << " /\nPORO\n " << N << "*0." << r.range(10, 35) << " /\n";
+    o << "PERMX\n " << N << "*" << r.range(10, 900) << " /\nPERMY\n " << N << "*" << r.range(10, 900) << " /\nPERMZ\n " << N << "*" << r.range(1, 90) << " /\n";
+    if (bc) {
+        kw("BCCON") << " 1 1 1 1 " << ny << " 1 " << nz << " X- /\n";
+        if (r.coin()) o << " 2 " << nx << " " << nx << " 1 " << ny << " 1 " << r.range(1, nz) << " X /\n";
+        if (r.coin(1, 3)) o << " 3 1 " << nx << " 1 1 1 " << nz << " Y- /\n";
+        o << "/\n";
+    }
+    if (numaq) {
+        // aquifer cells in the far corner column (wells are never drilled at (nx, ny))
+        kw("AQUNUM");
+        const int ncell = r.range(1, std::min(2, nz));
+        for (int c = 0; c < ncell; ++c)
+            o << " 1 " << nx << " " << ny << " " << nz - c << " " << fmtD(1e4 * (1 + r.below(50))) << " " << fmtD(500 * (1 + r.below(9))) << " 0." << r.range(15, 35) << " " << r.range(50, 900)
+              << " " << (r.coin() ? fmtD(top + 30 + r.below(50)) : std::string("1*")) << " " << (r.coin() ? fmtD(200 + r.below(100)) : std::string("1*")) << " " << r.range(1, ntpvt) << " " << r.range(1, ntsfun) << " /\n";
+        o << "/\n";
+        kw("AQUCON") << " 1 " << nx - 1 << " " << nx - 1 << " " << ny << " " << ny << " 1 " << nz << " 'I+' " << fmtD(0.5 + r.unit()) << " " << r.range(0, 1) << " /\n/\n";
+    }
+    if (faults) {
+        kw("FAULTS") << " 'F1' 2 2 1 " << ny << " 1 " << nz << " X /\n";
+        if (r.coin()) o << " 'F2' 1 " << nx << " 2 2 1 " << r.range(1, nz) << " Y /\n";
+        if (r.coin(1, 3)) o << " 'F1' 2 2 1 1 1 " << nz << " Y /\n";
+        o << "/\n";
+        if (r.coin(2, 3)) kw("MULTFLT") << " 'F1' " << fmtD(0.1 + r.unit()) << " /\n/\n";
+    }
+    if (r.coin(1, 4)) {
+        kw("NNC") << " 1 1 1 2 2 " << nz << " " << fmtD(r.unit() * 5) << " /\n";
+        if (r.coin()) o << " 1 2 1 3 3 1 " << fmtD(r.unit() * 5) << " /\n";
+        o << "/\n";
+    }
+    if (r.coin(1, 5)) kw("MINPV") << " " << fmtD(1e-3 * (1 + r.below(9))) << " /\n";
+    if (r.coin(1, 6)) kw("PINCH") << " " << fmtD(0.01 * (1 + r.below(20))) << " " << r.pick(SV{"GAP", "NOGAP"}) << " 1* " << r.pick(SV{"TOPBOT", "ALL"}) << " " << r.pick(SV{"TOP", "ALL"}) << " /\n";
+    if (endscale && r.coin(1, 2)) kw("JFUNC") << " " << r.pick(SV{"BOTH", "WATER", "GAS"}) << " " << fmtD(10 + r.below(40)) << " " << fmtD(10 + r.below(40)) << (r.coin() ? " 0.6 0.4 " + r.pick(SV{"XY", "X", "Z"}) : std::string("")) << " /\n";
+    if (r.coin(1, 8)) kw("GDORIENT") << " INC INC INC DOWN RIGHT /\n";
+    const bool editnnc = r.coin(1, 6);
+    if (editnnc) { kw("EDIT"); kw("EDITNNC") << " 1 1 1 2 2 " << nz << " " << fmtD(0.5 + r.unit() * 3) << " /\n/\n"; }
+
+    kw("PROPS");
+    kw("SWOF");
+    for (int t = 0; t < ntsfun; ++t) o << " 0." << 15 + 5 * t << " 0 1 0\n 0.5 0." << r.range(1, 5) << " 0.3 0\n" << (r.coin() ? " 0.8 0.7 1* 0\n" : "") << " 1.0 1 0 0 /\n";
+    kw("SGOF");
+    for (int t = 0; t < ntsfun; ++t) o << " 0 0 1 0\n 0.4 0." << r.range(1, 6) << " 0.2 0\n 0." << 75 + t << " 1 0 0 /\n";
+    kw("DENSITY");
+    for (int t = 0; t < ntpvt; ++t) o << " " << fmtD(800 + r.below(100)) << " " << fmtD(1000 + r.below(50)) << " " << fmtD(0.8 + r.unit()) << " /\n";
+    kw("PVTW");
+    for (int t = 0; t < ntpvt; ++t) o << (t > 0 && r.coin(1, 4) ? " /\n" : " " + fmtD(250 + r.below(40)) + " 1.03 4.6E-5 0." + std::to_string(r.range(2, 6)) + " 0 /\n");
+    kw("ROCK");
+    for (int t = 0; t < ntpvt; ++t) o << " " << fmtD(250 + r.below(40)) << " " << fmtD(1e-5 * (1 + r.below(9))) << " /\n";
+    if (live) {
+        kw("PVTO");
+        for (int t = 0; t < ntpvt; ++t) {
+            if (t > 0 && r.coin(1, 3)) { o << "/\n"; continue; }      // region copies the previous table
+            const double rs1 = 5 + r.below(20), rs2 = rs1 + 20 + r.below(60);
+            o << " " << fmtD(rs1) << " 50 1.1 1.0\n      300 1.0" << r.range(1, 9) << " 1.2 /\n " << fmtD(rs2) << " 100 1.2 0.9\n      300 1.1" << r.range(1, 9) << " 1.0 /\n/\n";
+        }
+        kw("PVTG");
+        for (int t = 0; t < ntpvt; ++t) {
+            if (t > 0 && r.coin(1, 3)) { o << "/\n"; continue; }
+            o << " 50 0.0001" << r.range(1, 9) << " 0.02 0.01\n    0 0.021 0.011 /\n 300 0.0002 0.004 0.02\n    0 0.0041 0.021 /\n/\n";
+        }
+    } else {
+        kw("PVDG");
+        for (int t = 0; t < ntpvt; ++t) o << " 50 0.02 0.01\n 100 0.01 0.015\n 300 0.00" << r.range(2, 8) << " 0.02 /\n";
+        kw("PVDO");
+        for (int t = 0; t < ntpvt; ++t) o << " 50 1.1 1.0\n 300 1.0" << r.range(0, 9) << " 1.2 /\n";
+    }
+    if (ntrocc) {
+        kw("ROCKTAB");
+        for (int t = 0; t < ntrocc; ++t) o << " 100 1.0 1.0\n" << (r.coin() ? " 200 1.0" + std::to_string(r.range(1, 9)) + " 1.1\n" : std::string("")) << " 300 1.1 1.2" << r.range(0, 9) << " /\n";
+    }
+    if (polymer) {
+        kw("PLYSHLOG") << " " << fmtD(0.5 + r.unit()) << " /\n 1e-7 1.0\n 1e-5 1." << r.range(1, 4) << "\n 1e-3 1." << r.range(5, 9) << " /\n";
+        kw("PLYVISC");
+        for (int t = 0; t < ntpvt; ++t) o << " 0 1\n " << fmtD(0.5 + r.unit()) << " " << fmtD(2 + r.below(20)) << " /\n";
+    }
+    if (anaq) kw("AQUTAB") << " 0.01 0.112\n 0.05 0.229\n " << fmtD(0.1 + r.unit()) << " 0.4 /\n";
+    if (tracers) kw("TRACER") << " 'SEA' 'WAT' /\n 'OT' 'OIL' /\n 'GT' 'GAS' /\n/\n";
+    if (endscale && r.coin()) kw("SCALECRS") << " " << (r.coin() ? "YES" : "NO") << " /\n";
+
+    if (ntsfun > 1 || ntpvt > 1 || nteql > 1 || ntfip > 1 || ntrocc > 1) {
+        kw("REGIONS");
+        if (ntsfun > 1) kw("SATNUM") << cellList(ntsfun) << " /\n";
+        if (ntpvt > 1) kw("PVTNUM") << cellList(ntpvt) << " /\n";
+        if (nteql > 1) kw("EQLNUM") << cellList(nteql) << " /\n";
+        if (ntfip > 1) kw("FIPNUM") << cellList(ntfip) << " /\n";
+        if (ntrocc > 1) kw("ROCKNUM") << cellList(ntrocc) << " /\n";
+    }
+
+    kw("SOLUTION");
+    kw("EQUIL");
+    for (int t = 0; t < nteql; ++t) o << " " << fmtD(top + 50 + r.below(100)) << " " << fmtD(200 + r.below(100)) << " " << fmtD(top + 200 + r.below(100)) << " 0 " << fmtD(top + r.below(40)) << " 0 1 0 0 /\n";
+    if (live) {
+        kw("RSVD"); for (int t = 0; t < nteql; ++t) o << " " << fmtD(top) << " 5\n " << fmtD(top + 300) << " 5 /\n";
+        kw("RVVD"); for (int t = 0; t < nteql; ++t) o << " " << fmtD(top) << " 0.0001\n " << fmtD(top + 300) << " 0.0001 /\n";
+    }
+    if (thpres) kw("THPRES") << " 1 2 " << (r.coin(3, 4) ? fmtD(1 + r.below(20)) : std::string("1*")) << " /\n/\n";
+    std::vector<int> fluxAquifers;
+    if (anaq) {
+        const int split = r.range(1, ny - 1);
+        const bool fetp = r.coin(2, 3), ct = r.coin(2, 3) || !fetp;
+        if (fetp) {
+            kw("AQUFETP") << " 2 " << fmtD(top + 20) << " " << (r.coin(3, 4) ? fmtD(250 + r.below(50)) : std::string("1*")) << " " << fmtD(1e8 * (1 + r.below(50))) << " " << fmtD(1e-5 * (1 + r.below(9))) << " " << fmtD(100 + r.below(900)) << " " << r.range(1, ntpvt) << " 0 /\n/\n";
+        }
+        if (ct) {
+            kw("AQUCT") << " 3 " << fmtD(top + 20) << " " << (r.coin(3, 4) ? fmtD(250 + r.below(50)) : std::string("1*")) << " " << fmtD(50 + r.below(500)) << " 0." << r.range(1, 4) << " " << fmtD(1e-5 * (1 + r.below(9))) << " " << fmtD(300 + r.below(900)) << " " << fmtD(10 + r.below(40)) << " "
+                        << fmtD(30 + r.below(330)) << " " << r.range(1, ntpvt) << " " << r.range(1, 2) << " /\n/\n";
+        }
+        const bool flux = r.coin();
+        if (flux) fluxAquifers.push_back(4);
+        kw("AQUANCON");
+        if (fetp) o << " 2 1 1 1 " << split << " 1 " << nz << " 'I-' " << (r.coin() ? "1*" : fmtD(100 + r.below(900))) << " " << fmtD(0.5 + r.unit()) << " /\n";
+        if (ct) o << " 3 1 1 " << split + 1 << " " << ny << " 1 " << nz << " 'I-' 1* " << fmtD(0.5 + r.unit()) << " " << (r.coin() ? "YES" : "NO") << " /\n";
+        if (flux) o << " 4 2 " << nx - 1 << " 1 1 1 " << r.range(1, nz) << " 'J-' /\n";
+        o << "/\n";
+        if (flux && r.coin()) kw("AQUFLUX") << " 4 " << fmtD(r.unit() * 0.1) << (r.coin() ? " 1.0 30 250" : "") << " /\n/\n";
+    }
+    if (tracers) {
+        if (r.coin()) kw("TVDPFSEA") << " " << fmtD(top) << " 0\n " << fmtD(top + 200) << " 0." << r.range(1, 9) << " /\n";
+        else kw("TBLKFSEA") << " " << N << "*0." << r.range(0, 9) << " /\n";
+        kw("TBLKFOT") << " " << N << "*0." << r.range(0, 9) << " /\n";
+        if (r.coin()) kw("TBLKFGT") << " " << N << "*0.0 /\n";
+        if (disgas && r.coin(1, 3)) kw("TBLKSGT") << " " << N << "*0.1 /\n";
+    }
+    const SV rstMnemonics{"KRO", "KRW", "KRG", "DEN", "VISC", "PORO", "PRES", "RSSAT", "RVSAT", "FLOWS", "ALLPROPS", "PBPD", "BG", "BO", "BW", "ROCKC", "FIP", "POT"};
+    auto rptrst = [&]() {
+        kw("RPTRST");
+        if (r.coin(1, 6)) { o << " " << r.range(0, 3) << " /\n"; return; }           // integer control
+        if (r.coin(4, 5)) o << " BASIC=" << r.range(0, 5);
+        if (r.coin(1, 3)) o << " FREQ=" << r.range(1, 4);
+        for (int i = r.range(0, 3); i > 0; --i) { const auto& m = r.pick(rstMnemonics); o << " " << m; if (m == "FIP" && r.coin()) o << "=" << r.range(1, 3); }
+        o << " /\n";
+    };
+    if (r.coin(1, 3)) rptrst();
+    if (r.coin(1, 4)) kw("RPTSOL") << " RESTART=" << r.range(1, 4) << " FIP=" << r.range(1, 3) << " /\n";
+
+    kw("SUMMARY");
+    const SV fvec{"FOPR", "FOPT", "FWPR", "FGPR", "FWIR", "FPR", "FWCT", "FGOR"};
+    const SV wvec{"WOPR", "WWPR", "WGPR", "WBHP", "WTHP", "WWCT", "WOPT", "WWIR"};
+    const SV gvec{"GOPR", "GWPR", "GGPR", "GOPT"};
     for (int i = r.range(1, 5); i > 0; --i) o << r.pick(fvec) << "\n";
     for (int i = r.range(0, 4); i > 0; --i) o << r.pick(wvec) << "\n" << (r.coin() ? " /\n" : " 'W1' /\n");
     for (int i = r.range(0, 3); i > 0; --i) o << r.pick(gvec) << "\n /\n";
@@ -780,96 +1655,275 @@ inline std::string genDeck(vh::Rng& r, std::map<std::string, long>& stats) {
     if (r.coin(1, 4)) o << "NARROW\n";
     if (r.coin(1, 4)) o << "SEPARATE\n";
     if (r.coin(1, 5)) o << "FU1\n";
-    // SCHEDULE
-    o << "\nSCHEDULE\n";
-    std::vector<std::string> groups, wells;
+    if (anaq && r.coin()) o << "AAQR\n /\n";
+
+    kw("SCHEDULE");
+    SV groups, wells;
     for (int g = 0; g < ngroups; ++g) groups.push_back("G" + std::to_string(g + 1));
-    for (int w = 0; w < nwells; ++w) wells.push_back("W" + std::to_string(w + 1));
-    if (r.coin()) { o << "RPTRST\n BASIC=" << r.range(1, 4) << " /\n"; }
+    for (int w = 0; w < nplain; ++w) wells.push_back("W" + std::to_string(w + 1));
+    if (msw) wells.push_back("MS1");
+    std::vector<bool> isMsw(nwells, false);
+    if (msw) isMsw[nwells - 1] = true;
+    if (r.coin()) rptrst();
+    if (r.coin(1, 4)) kw("RPTSCHED") << " FIP=" << r.range(1, 3) << (r.coin() ? " WELLS=" + std::to_string(r.range(1, 5)) : std::string("")) << (r.coin() ? " RESTART=" + std::to_string(r.range(0, 6)) : std::string("")) << " /\n";
+    if (vfp) {
+        kw("VFPPROD") << " 1 " << fmtD(top) << " " << r.pick(SV{"LIQ", "OIL", "GAS"}) << " " << r.pick(SV{"WCT", "WOR", "WGR"}) << " " << r.pick(SV{"GOR", "GLR", "OGR"}) << " THP " << r.pick(SV{"' '", "GRAT"}) << " " << (field ? "FIELD" : "METRIC") << " BHP /\n"
+                      << " 1 " << fmtD(100 + r.below(900)) << " /\n 10 " << fmtD(50 + r.below(50)) << " /\n 0 0." << r.range(1, 9) << " /\n " << fmtD(1 + r.below(500)) << " /\n 0 /\n"
+                      << " 1 1 1 1 100 1" << r.range(10, 99) << " /\n 2 1 1 1 130 150 /\n 1 2 1 1 101 121 /\n 2 2 1 1 131 15" << r.range(1, 9) << " /\n";
+        kw("VFPINJ") << " 2 " << fmtD(top) << " " << r.pick(SV{"WAT", "OIL", "GAS"}) << " THP " << (field ? "FIELD" : "METRIC") << " BHP /\n 1 100 " << fmtD(500 + r.below(500)) << " /\n 10 50 /\n 1 100 110 12" << r.range(0, 9) << " /\n 2 130 140 150 /\n";
+    }
     std::set<std::string> parents;
-    if (r.coin(1, 3)) { o << "GRUPTREE\n"; for (size_t g = 1; g < groups.size(); ++g) { const auto& par = groups[r.below(g)]; parents.insert(par); o << " '" << groups[g] << "' '" << par << "' /\n"; } o << "/\n"; }
-    std::vector<std::string> leaves;
+    {   // every group is declared (GCONSALE, GCONSUMP, ... need the group to exist)
+        kw("GRUPTREE") << " 'G1' 'FIELD' /\n";
+        for (size_t g = 1; g < groups.size(); ++g) {
+            if (r.coin(1, 3)) { o << " '" << groups[g] << "' 'FIELD' /\n"; continue; }
+            const auto& par = groups[r.below(g)]; parents.insert(par); o << " '" << groups[g] << "' '" << par << "' /\n";
+        }
+        o << "/\n";
+    }
+    SV leaves;
     for (const auto& g : groups) if (!parents.count(g)) leaves.push_back(g);
     std::vector<bool> producer(nwells);
+    std::vector<std::string> groupOf(nwells);
+    std::vector<std::pair<int, int>> head(nwells);
     auto welspecs = [&](int w) {
-        o << "WELSPECS\n '" << wells[w] << "' '" << r.pick(leaves) << "' " << r.range(1, nx) << " " << r.range(1, ny) << " " << (r.coin() ? "1*" : fmtD(2000 + r.below(200)))
-          << " '" << (producer[w] ? "OIL" : "WATER") << "' " << (r.coin(1, 4) ? fmtD(100 + r.below(100)) : std::string("1*")) << " /\n/\n";
+        groupOf[w] = r.pick(leaves);
+        // never at (nx, ny): that column may hold numerical-aquifer cells
+        do { head[w] = { r.range(1, nx), r.range(1, ny) }; } while (head[w].first == nx && head[w].second == ny);
+        kw("WELSPECS") << " '" << wells[w] << "' '" << groupOf[w] << "' " << head[w].first << " " << head[w].second << " " << (r.coin() && !isMsw[w] ? "1*" : fmtD(top + r.below(20)))
+          << " '" << (producer[w] ? "OIL" : "WATER") << "' " << (r.coin(1, 4) ? fmtD(100 + r.below(100)) : std::string("1*"))
+          << (r.coin(1, 4) ? " " + r.pick(SV{"STD", "NO", "R-G", "YES", "P-P", "GPP"}) + " " + r.pick(SV{"SHUT", "STOP"}) + " " + r.pick(SV{"YES", "NO"}) + " " + std::to_string(r.range(0, ntpvt)) + " 1* " + std::to_string(r.range(0, ntfip)) : std::string("")) << " /\n/\n";
     };
     auto compdat = [&](int w) {
+        if (isMsw[w]) return;
         const int k1 = r.range(1, nz), k2 = r.range(k1, nz);
-        o << "COMPDAT\n '" << wells[w] << "' " << (r.coin() ? "2*" : std::to_string(r.range(1, nx)) + " " + std::to_string(r.range(1, ny))) << " " << k1 << " " << k2 << " '"
-          << (r.coin(3, 4) ? "OPEN" : "SHUT") << "' " << (r.coin() ? "1*" : "1") << " " << (r.coin() ? "1*" : fmtD(1 + r.below(50))) << " " << fmtD(0.1 + 0.05 * r.below(6))
-          << " " << (r.coin(3, 4) ? "1*" : fmtD(100 + r.below(1000))) << " " << (r.coin() ? "1*" : fmtD(r.range(-2, 5))) << " /\n/\n";
+        int ci = r.range(1, nx), cj = r.range(1, ny);
+        if (ci == nx && cj == ny) ci = 1;
+        kw("COMPDAT") << " '" << wells[w] << "' " << (r.coin() ? "2*" : std::to_string(ci) + " " + std::to_string(cj)) << " " << k1 << " " << k2 << " '"
+          << (r.coin(3, 4) ? "OPEN" : "SHUT") << "' " << (r.coin() ? "1*" : std::to_string(r.range(1, ntsfun))) << " " << (r.coin() ? "1*" : fmtD(1 + r.below(50))) << " " << fmtD(0.1 + 0.05 * r.below(6))
+          << " " << (r.coin(3, 4) ? "1*" : fmtD(100 + r.below(1000))) << " " << (r.coin() ? "1*" : fmtD(r.range(-2, 5))) << (r.coin(1, 5) ? " " + fmtD(1e-5 * r.below(9)) + " " + r.pick(SV{"Z", "X", "Y"}) : std::string("")) << " /\n/\n";
     };
+    std::set<std::string> chokeGroups;     // NODEPROP auto-choke groups: their wells run on THP, GRUP is refused
+    std::set<int> noGrup;                  // WGRUPCON NO: not available for group control any more
     auto control = [&](int w) {
+        const bool choked = chokeGroups.count(groupOf[w]) > 0 || noGrup.count(w) > 0;
         if (producer[w]) {
-            if (r.coin(1, 3)) o << "WCONHIST\n '" << wells[w] << "' 'OPEN' '" << r.pick(std::vector<std::string>{"ORAT", "LRAT", "RESV"}) << "' " << fmtD(r.below(5000)) << " " << fmtD(r.below(500)) << " " << fmtD(r.below(90000)) << (r.coin() ? " 3* " + fmtD(50 + r.below(100)) : "") << " /\n/\n";
-            else o << "WCONPROD\n '" << wells[w] << "' '" << (r.coin(4, 5) ? "OPEN" : "SHUT") << "' '" << r.pick(std::vector<std::string>{"ORAT", "LRAT", "BHP", "GRUP"}) << "' " << fmtD(100 + r.below(5000)) << " " << (r.coin() ? "1*" : fmtD(r.below(900))) << " 1* " << fmtD(200 + r.below(7000)) << " 1* " << fmtD(20 + r.below(100)) << " /\n/\n";
+            if (r.coin(1, 3)) kw("WCONHIST") << " '" << wells[w] << "' 'OPEN' '" << r.pick(SV{"ORAT", "LRAT", "RESV"}) << "' " << fmtD(r.below(5000)) << " " << fmtD(r.below(500)) << " " << fmtD(r.below(90000)) << (r.coin() ? " 3* " + fmtD(50 + r.below(100)) : "") << " /\n/\n";
+            else kw("WCONPROD") << " '" << wells[w] << "' '" << (r.coin(4, 5) ? "OPEN" : "SHUT") << "' '" << (choked ? r.pick(SV{"ORAT", "LRAT", "BHP"}) : r.pick(SV{"ORAT", "LRAT", "BHP", "GRUP"})) << "' " << fmtD(100 + r.below(5000)) << " " << (r.coin() ? "1*" : fmtD(r.below(900))) << " 1* " << fmtD(200 + r.below(7000)) << " 1* " << fmtD(20 + r.below(100))
+                                << (vfp && r.coin() ? " " + fmtD(5 + r.below(20)) + " 1 " + fmtD(r.below(100)) : std::string("")) << " /\n/\n";
         } else {
-            o << "WCONINJE\n '" << wells[w] << "' '" << r.pick(std::vector<std::string>{"WATER", "GAS"}) << "' 'OPEN' '" << r.pick(std::vector<std::string>{"RATE", "BHP", "GRUP"}) << "' " << fmtD(100 + r.below(9000)) << " 1* " << fmtD(300 + r.below(300)) << " /\n/\n";
+            kw("WCONINJE") << " '" << wells[w] << "' '" << r.pick(SV{"WATER", "GAS"}) << "' 'OPEN' '" << (choked ? r.pick(SV{"RATE", "BHP"}) : r.pick(SV{"RATE", "BHP", "GRUP"})) << "' " << fmtD(100 + r.below(9000)) << " 1* " << fmtD(300 + r.below(300))
+                           << (vfp && r.coin() ? " " + fmtD(50 + r.below(100)) + " 2" : std::string("")) << " /\n/\n";
         }
     };
-    for (int w = 0; w < nwells; ++w) { producer[w] = (w == 0) || r.coin(2, 3); welspecs(w); compdat(w); control(w); }
-    bool haveUdq = false, haveAction = false;
+    for (int w = 0; w < nwells; ++w) { producer[w] = (w == 0) || isMsw[w] || r.coin(2, 3); welspecs(w); if (!isMsw[w]) compdat(w); }
+    if (msw) {
+        // a vertical multisegment producer: main-branch segments 2..nz+1 (one per layer) and, per
+        // layer, a one-segment lateral (segments nz+2 .. 2nz+1) that can carry a valve / ICD
+        const int w = nwells - 1;
+        const auto [hi, hj] = head[w];
+        kw("COMPDAT") << " 'MS1' " << hi << " " << hj << " 1 " << nz << " 'OPEN' 1* 1* 0.2 /\n/\n";
+        const bool inc = r.coin();
+        kw("WELSEGS") << " 'MS1' " << fmtD(top) << " 0 " << (r.coin() ? "1e-5" : "1*") << " '" << (inc ? "INC" : "ABS") << "' '" << r.pick(SV{"HF-", "HFA"}) << "' 'HO' /\n";
+        for (int k = 1; k <= nz; ++k) {
+            const double l = inc ? dz : k * dz, dd = inc ? dz : top + k * dz;
+            o << " " << k + 1 << " " << k + 1 << " 1 " << k << " " << fmtD(l) << " " << fmtD(dd) << " 0." << r.range(1, 3) << " 0.0001 /\n";
+        }
+        for (int k = 1; k <= nz; ++k) {
+            const double l = inc ? 0.5 : k * dz + 0.5, dd = inc ? 0.0 : top + k * dz;
+            o << " " << nz + 1 + k << " " << nz + 1 + k << " " << k + 1 << " " << k + 1 << " " << fmtD(l) << " " << fmtD(dd) << " 0.1 0.0001 /\n";
+        }
+        o << "/\n";
+        kw("COMPSEGS") << " 'MS1' /\n";
+        for (int k = 1; k <= nz; ++k) o << " " << hi << " " << hj << " " << k << " " << k + 1 << " " << fmtD(k * dz + 0.5) << " " << fmtD(k * dz + 0.5 + 0.3) << " /\n";
+        o << "/\n";
+        stats["gen.msw"]++;
+    }
+    for (int w = 0; w < nwells; ++w) control(w);
+    auto segDevice = [&]() {
+        if (!msw) return;
+        const int seg = nz + 1 + r.range(1, nz);
+        switch (r.below(3)) {
+        case 0: kw("WSEGVALV") << " 'MS1' " << seg << " 0." << r.range(5, 9) << " " << fmtD(1e-5 * (1 + r.below(20))) << (r.coin() ? " 5* " + fmtD(1e-4 * (2 + r.below(8))) : (r.coin() ? " " + fmtD(r.below(3)) + " 0.1 1e-4 0.008 " + r.pick(SV{"OPEN", "SHUT"}) + " 3e-4" : std::string(""))) << " /\n/\n"; break;
+        case 1: kw("WSEGSICD") << " 'MS1' " << seg << " " << seg << " " << fmtD(1e-3 * (1 + r.below(9))) << " " << (r.coin() ? fmtD(-0.1 * (1 + r.below(9))) : fmtD(1 + r.below(20))) << " " << (r.coin() ? "1*" : fmtD(900 + r.below(200))) << " 1* 0." << r.range(3, 7) << " 1* 1* " << (r.coin() ? "1*" : std::to_string(r.range(-1, 2))) << " "
+                               << (r.coin() ? "1*" : fmtD(100 + r.below(900))) << " '" << r.pick(SV{"OPEN", "SHUT"}) << "' /\n/\n"; break;
+        default: kw("WSEGAICD") << " 'MS1' " << seg << " " << seg << " " << fmtD(1e-3 * (1 + r.below(9))) << " " << fmtD(-0.1 * (1 + r.below(9))) << " 1* 1* 0." << r.range(3, 7) << " 1* 1* 1* " << (r.coin() ? "1*" : fmtD(100 + r.below(900))) << " " << fmtD(0.5 + r.unit()) << " " << fmtD(0.5 + r.unit())
+                                << " '" << r.pick(SV{"OPEN", "SHUT"}) << "'" << (r.coin() ? " 1.1 1.2 1.3 1.4 1.5 1." + std::to_string(r.range(1, 9)) : std::string("")) << " /\n/\n"; break;
+        }
+    };
+    if (msw) for (int i = r.range(0, 3); i > 0; --i) segDevice();
+    // network: extended (BRANPROP/NODEPROP) or standard (GRUPNET)
+    bool netDefined = false;
+    auto allProducers = [&](const std::string& g) { bool any = false; for (int w = 0; w < nwells; ++w) if (groupOf[w] == g) { any = true; if (!producer[w]) return false; } return any; };
+    auto defineNetwork = [&]() {
+        if (!network) return;
+        if (extnet) {
+            if (!netDefined) for (const auto& g : leaves) if (allProducers(g) && r.coin(1, 3)) chokeGroups.insert(g);
+            kw("BRANPROP");
+            for (size_t g = 0; g < groups.size(); ++g) {
+                // parent as in GRUPTREE (FIELD for the top groups)
+                o << " '" << groups[g] << "' '" << "FIELD" << "' " << (chokeGroups.count(groups[g]) || !vfp || r.coin() ? 9999 : 1) << (r.coin(1, 4) ? " " + fmtD(r.below(50)) + " " + r.pick(SV{"NONE", "DENO", "DENG"}) : std::string("")) << " /\n";
+            }
+            o << "/\n";
+            kw("NODEPROP") << " 'FIELD' " << fmtD(10 + r.below(40)) << " /\n";
+            for (const auto& g : groups) o << " '" << g << "' 1* '" << (chokeGroups.count(g) ? "YES" : "NO") << "' '" << (r.coin(1, 4) ? "YES" : "NO") << "' /\n";
+            o << "/\n";
+        } else {
+            kw("GRUPNET") << " 'FIELD' " << fmtD(10 + r.below(40)) << " /\n";
+            for (const auto& g : groups) o << " '" << g << "' 1* " << (vfp && r.coin() ? 1 : 9999) << (r.coin(1, 3) ? " " + fmtD(r.below(50)) + " " + r.pick(SV{"NO", "YES"}) + " " + r.pick(SV{"NO", "FLO"}) : std::string("")) << " /\n";
+            o << "/\n";
+        }
+        netDefined = true;
+    };
+    auto netbalan = [&]() {
+        if (!network) return;
+        kw("NETBALAN") << " " << (r.coin() ? fmtD(-1.0) : fmtD(r.below(30))) << " " << fmtD(0.01 * (1 + r.below(30))) << " " << r.range(1, 20);
+        if (r.coin()) { o << " " << fmtD(0.01 * (1 + r.below(9))) << " " << r.range(1, 20); if (r.coin()) { o << " " << (r.coin() ? "1*" : fmtD(1 + r.below(9))) << " " << fmtD(2 + r.below(9)); if (r.coin()) o << " " << fmtD(0.1 * (1 + r.below(9))); } }
+        o << " /\n";
+    };
+    defineNetwork();
+    if (network && r.coin(2, 3)) netbalan();
+    auto injectorOK = [&](int w) { return !producer[w] && !chokeGroups.count(groupOf[w]); };
+    auto tuningRec = [&](const std::string& types) {
+        // every item of the three TUNING records independently entered or defaulted: the
+        // optional ones (TMAXWC, TRGSFT, ...) carry a has_value flag that must travel on its own
+        std::string out; int last = -1; const int n = (int) types.size();
+        SV it(n);
+        for (int i = 0; i < n; ++i) if (r.coin(1, 3)) { it[i] = types[i] == 'I' ? std::to_string(r.range(1, 40)) : fmtD(0.01 + r.unit() * (i == 0 ? 1.0 : 20.0)); last = i; }
+        for (int i = 0; i <= last; ++i) out += " " + (it[i].empty() ? std::string("1*") : it[i]);
+        return out + " /\n";
+    };
+    auto tuning = [&]() { kw("TUNING") << tuningRec("DDDDDDDDDD") << tuningRec("DDDDDDDDDDDDI") << tuningRec("IIIIIIDDDD"); stats["gen.tuning"]++; };
     std::set<int> wlists;
+    auto wlist = [&](int w) {
+        const int l = r.range(1, 3); const bool isNew = !wlists.count(l) || r.coin(1, 6); wlists.insert(l);
+        kw("WLIST") << " '*L" << l << "' '" << (isNew ? "NEW" : r.pick(SV{"ADD", "ADD", "DEL", "MOV"})) << "'";
+        std::set<int> ws{w}; for (int i = r.range(0, 2); i > 0; --i) ws.insert(static_cast<int>(r.below(nwells)));
+        for (int x : ws) o << " '" << wells[x] << "'";
+        o << " /\n/\n";
+    };
+    std::set<std::string> actions;
+    auto actionx = [&](int w, int step) {
+        // half of the time an action that already exists is defined again (other condition / body)
+        std::string name = "A" + std::to_string(r.range(1, 3));
+        if (!actions.empty() && r.coin()) { name = *std::next(actions.begin(), static_cast<long>(r.below(actions.size()))); stats["gen.actionx_redefined"]++; }
+        else if (actions.count(name)) stats["gen.actionx_redefined"]++;
+        actions.insert(name);
+        kw("ACTIONX") << " '" << name << "' " << r.range(1, 5) << " " << fmtD(r.below(50)) << " /\n";
+        const SV quant{"FOPR", "WWCT 'W1'", "FWCT", "GOPR 'G1'", "WOPR '" + wells[w] + "'", "FGOR", "MNTH", "DAY"};
+        const int nc = r.range(1, 3);
+        for (int c = 0; c < nc; ++c) {
+            const auto& q = r.pick(quant);
+            o << " " << q << " " << r.pick(SV{">", "<", ">=", "<=", "="}) << " " << (q == "MNTH" ? r.pick(SV{"JAN", "JUN", "OCT"}) : q == "DAY" ? std::to_string(r.range(1, 28)) : fmtD(r.unit() * 100)) << (c + 1 < nc ? r.pick(SV{" AND", " OR"}) : std::string("")) << " /\n";
+        }
+        o << "/\n";
+        for (int b = r.range(0, 3); b > 0; --b) {
+            switch (r.below(7)) {
+            case 0: kw("WELOPEN") << " '" << (r.coin() ? "?" : wells[w]) << "' '" << r.pick(SV{"SHUT", "OPEN", "STOP"}) << "' /\n/\n"; break;
+            case 1: if (!isMsw[w]) { const int k1 = r.range(1, nz); kw("COMPDAT") << " '" << wells[w] << "' " << head[w].first << " " << head[w].second << " " << k1 << " " << r.range(k1, nz) << " 'OPEN' 1* 1* 0.2 /\n/\n"; stats["gen.actionx_compdat"]++; } break;
+            case 2: if (producer[w]) kw("WELTARG") << " '" << wells[w] << "' '" << r.pick(SV{"ORAT", "BHP", "LRAT"}) << "' " << fmtD(50 + r.below(4000)) << " /\n/\n"; break;
+            case 3: kw("WPIMULT") << " '" << wells[w] << "' " << fmtD(0.5 + r.unit()) << " /\n/\n"; break;
+            case 4: kw("NEXTSTEP") << " " << fmtD(0.1 + r.unit() * 5) << " " << (r.coin() ? "YES" : "NO") << " /\n"; break;
+            case 5: kw("GCONPROD") << " '" << r.pick(groups) << "' 'ORAT' " << fmtD(1000 + r.below(20000)) << " /\n/\n"; break;
+            default: kw("WEFAC") << " '" << wells[w] << "' " << fmtD(0.5 + 0.5 * r.unit()) << " /\n/\n"; break;
+            }
+        }
+        kw("ENDACTIO"); stats["gen.actionx"]++; (void) step;
+    };
+    auto drsdt = [&]() {
+        switch (r.below(4)) {
+        case 0: kw("DRSDT") << " " << fmtD(r.unit() * 0.01) << (r.coin() ? " " + r.pick(SV{"ALL", "FREE"}) : std::string("")) << " /\n"; break;
+        case 1: if (vapoil) kw("DRVDT") << " " << fmtD(r.unit() * 0.01) << " /\n"; break;
+        case 2: kw("DRSDTR"); for (int t = 0; t < ntpvt; ++t) o << " " << fmtD(r.unit() * 0.01 * (t + 1)) << (r.coin(1, 3) ? " " + r.pick(SV{"ALL", "FREE"}) : std::string("")) << " /\n"; if (ntpvt >= 9) stats["gen.drsdtr_ge9"]++; break;
+        default: if (vapoil) { kw("DRVDTR"); for (int t = 0; t < ntpvt; ++t) o << " " << fmtD(r.unit() * 0.01 * (t + 1)) << " /\n"; } break;
+        }
+    };
+    bool lifton = false;
     const int nsteps = r.range(1, 6);
     for (int step = 0; step < nsteps; ++step) {
         // a few random keywords, then advance
-        for (int k = r.range(0, 4); k > 0; --k) {
+        for (int k = r.range(0, 6); k > 0; --k) {
             const int w = static_cast<int>(r.below(nwells));
-            switch (r.below(16)) {
-            case 0: o << "WELOPEN\n '" << wells[w] << "' '" << r.pick(std::vector<std::string>{"OPEN", "SHUT", "STOP"}) << "' /\n/\n"; break;
+            const std::string wq = "'" + wells[w] + "'";
+            switch (r.below(52)) {
+            case 0: kw("WELOPEN") << " " << wq << " '" << r.pick(SV{"OPEN", "SHUT", "STOP"}) << "' /\n/\n"; break;
             case 1: control(w); break;
             case 2: compdat(w); break;
-            case 3: o << "GCONPROD\n '" << r.pick(groups) << "' '" << r.pick(std::vector<std::string>{"ORAT", "LRAT", "NONE", "FLD"}) << "' " << fmtD(1000 + r.below(20000)) << " 2* " << fmtD(2000 + r.below(30000)) << " '" << r.pick(std::vector<std::string>{"RATE", "NONE", "WELL"}) << "' /\n/\n"; break;
-            case 4: o << "GCONINJE\n '" << r.pick(groups) << "' 'WATER' '" << r.pick(std::vector<std::string>{"RATE", "VREP", "NONE"}) << "' " << fmtD(1000 + r.below(20000)) << " 1* 1* " << fmtD(0.5 + r.unit()) << " /\n/\n"; break;
-            case 5: o << "GECON\n '" << r.pick(groups) << "' " << fmtD(r.below(100)) << " " << fmtD(r.below(1000)) << " " << fmtD(0.5 + 0.4 * r.unit()) << " 2* '" << r.pick(std::vector<std::string>{"NONE", "CON", "WELL"}) << "' '" << (r.coin() ? "YES" : "NO") << "' /\n/\n"; stats["gen.gecon"]++; break;
-            case 6: o << "WTEST\n '" << wells[w] << "' " << fmtD(1 + r.below(30)) << " '" << r.pick(std::vector<std::string>{"P", "E", "PE", "G"}) << "' " << r.range(0, 5) << " /\n/\n"; break;
-            case 7: o << "WECON\n '" << wells[w] << "' " << fmtD(r.below(50)) << " 1* " << fmtD(0.8 + 0.19 * r.unit()) << " 2* '" << r.pick(std::vector<std::string>{"NONE", "CON", "WELL"}) << "' '" << (r.coin() ? "YES" : "NO") << "' /\n/\n"; break;
-            case 8: o << "WEFAC\n '" << wells[w] << "' " << fmtD(0.5 + 0.5 * r.unit()) << " /\n/\n"; break;
-            case 9: o << "GEFAC\n '" << r.pick(groups) << "' " << fmtD(0.5 + 0.5 * r.unit()) << " /\n/\n"; break;
-            case 10: {
-                // every item of the three TUNING records independently entered or defaulted: the
-                // optional ones (TMAXWC, TRGSFT, …) carry a has_value flag that must travel on its own
-                auto rec = [&](const std::string& types) {
-                    std::string out; int last = -1; const int n = (int) types.size();
-                    std::vector<std::string> it(n);
-                    for (int i = 0; i < n; ++i) if (r.coin(1, 3)) { it[i] = types[i] == 'I' ? std::to_string(r.range(1, 40)) : fmtD(0.01 + r.unit() * (i == 0 ? 1.0 : 20.0)); last = i; }
-                    for (int i = 0; i <= last; ++i) out += " " + (it[i].empty() ? std::string("1*") : it[i]);
-                    return out + " /\n";
-                };
-                o << "TUNING\n" << rec("DDDDDDDDDD") << rec("DDDDDDDDDDDDI") << rec("IIIIIIDDDD");
-                stats["gen.tuning"]++;
-                break;
+            case 3: kw("GCONPROD") << " '" << r.pick(groups) << "' '" << r.pick(SV{"ORAT", "LRAT", "NONE", "FLD"}) << "' " << fmtD(1000 + r.below(20000)) << " 2* " << fmtD(2000 + r.below(30000)) << " '" << r.pick(SV{"RATE", "NONE", "WELL"}) << "'"
+                                    << (r.coin(1, 3) ? " " + r.pick(SV{"YES", "NO"}) + " " + fmtD(r.below(9)) + " " + r.pick(SV{"OIL", "LIQ", "RES", "' '"}) : std::string("")) << " /\n/\n"; break;
+            case 4: kw("GCONINJE") << " '" << r.pick(groups) << "' '" << r.pick(SV{"WATER", "GAS"}) << "' '" << r.pick(SV{"RATE", "VREP", "NONE", "REIN"}) << "' " << fmtD(1000 + r.below(20000)) << " 1* " << fmtD(0.5 + r.unit()) << " " << fmtD(0.5 + r.unit())
+                                    << (r.coin(1, 3) ? " " + r.pick(SV{"YES", "NO"}) + " " + fmtD(r.below(9)) + " " + r.pick(SV{"RATE", "VOID", "NETV"}) : std::string("")) << " /\n/\n"; break;
+            case 5: kw("GECON") << " '" << r.pick(groups) << "' " << fmtD(r.below(100)) << " " << fmtD(r.below(1000)) << " " << fmtD(0.5 + 0.4 * r.unit()) << " 2* '" << r.pick(SV{"NONE", "CON", "WELL"}) << "' '" << (r.coin() ? "YES" : "NO") << "' /\n/\n"; stats["gen.gecon"]++; break;
+            case 6: kw("WTEST") << " " << wq << " " << fmtD(1 + r.below(30)) << " '" << r.pick(SV{"P", "E", "PE", "G"}) << "' " << r.range(0, 5) << " /\n/\n"; break;
+            case 7: kw("WECON") << " " << wq << " " << fmtD(r.below(50)) << " " << (r.coin() ? "1*" : fmtD(r.below(500))) << " " << fmtD(0.8 + 0.19 * r.unit()) << " " << (r.coin() ? "2*" : fmtD(100 + r.below(900)) + " " + fmtD(r.unit())) << " '" << r.pick(SV{"NONE", "CON", "WELL", "+CON", "PLUG"}) << "' '" << (r.coin() ? "YES" : "NO") << "'"
+                                 << (r.coin(1, 3) ? " 1* " + r.pick(SV{"RATE", "POTN"}) + " " + fmtD(0.9 + 0.09 * r.unit()) + " " + r.pick(SV{"NONE", "CON", "WELL"}) + " " + fmtD(r.below(90)) + " " + fmtD(r.below(20)) : std::string("")) << " /\n/\n"; break;
+            case 8: kw("WEFAC") << " " << wq << " " << fmtD(0.5 + 0.5 * r.unit()) << " /\n/\n"; break;
+            case 9: kw("GEFAC") << " '" << r.pick(groups) << "' " << fmtD(0.5 + 0.5 * r.unit()) << (r.coin(1, 3) ? " NO" : "") << " /\n/\n"; break;
+            case 10: case 11: tuning(); break;
+            case 12: kw("NUPCOL") << " " << r.range(1, 12) << " /\n"; break;
+            case 13: if (producer[w]) kw("WELTARG") << " " << wq << " '" << r.pick(SV{"ORAT", "BHP", "LRAT"}) << "' " << fmtD(50 + r.below(4000)) << " /\n/\n"; break;
+            case 14: kw("UDQ") << " ASSIGN FU" << r.range(1, 3) << " " << fmtD(r.below(100)) << " /\n " << (r.coin() ? "DEFINE WU" + std::to_string(r.range(1, 2)) + " WOPR * " + fmtD(1 + r.below(5)) + " /\n" : std::string("UNITS FU1 SM3 /\n")) << "/\n"; stats["gen.udq"]++; break;
+            case 15: case 16: case 17: actionx(w, step); break;
+            case 18: case 19: case 20: wlist(w); break;
+            case 21: case 22: kw("GCONSALE") << " '" << r.pick(groups) << "' " << fmtD(10000 + r.below(50000)) << " " << (r.coin() ? "1*" : fmtD(60000 + r.below(9000))) << " " << (r.coin() ? "1*" : fmtD(r.below(9000))) << " '" << r.pick(SV{"NONE", "CON", "WELL", "RATE", "MAXR", "END", "+CON", "PLUG"}) << "' /\n/\n"; break;
+            case 23: kw("GCONSUMP") << " '" << r.pick(groups) << "' " << fmtD(r.below(500)) << " " << (r.coin() ? "1*" : fmtD(r.below(500))) << (network && extnet && r.coin(1, 3) ? " '" + r.pick(groups) + "'" : std::string("")) << " /\n/\n"; break;
+            case 24: case 25: kw("GUIDERAT") << " " << fmtD(r.below(30)) << " '" << r.pick(SV{"OIL", "LIQ", "GAS", "RES", "NONE"}) << "' " << fmtD(r.unit() * 2) << " " << fmtD(r.unit()) << " " << fmtD(r.unit()) << " " << fmtD(r.unit() * 2) << " " << fmtD(r.unit()) << " " << fmtD(r.unit())
+                                              << " '" << r.pick(SV{"YES", "NO"}) << "' " << fmtD(0.1 + 0.9 * r.unit()) << " /\n"; break;
+            case 26: { const bool yes = r.coin(); if (yes) noGrup.erase(w); else noGrup.insert(w); }
+                     kw("WGRUPCON") << " " << wq << " '" << (noGrup.count(w) ? "NO" : "YES") << "' " << (r.coin() ? "1*" : fmtD(r.unit() * 5)) << " '" << r.pick(SV{"OIL", "WAT", "GAS", "LIQ", "RES", "RAT"}) << "' " << fmtD(0.5 + r.unit()) << " /\n/\n"; break;
+            case 27: segDevice(); break;
+            case 28: netbalan(); break;
+            case 29: if (r.coin(1, 3)) defineNetwork(); else rptrst(); break;
+            case 30: rptrst(); break;
+            case 31: if (bc) { const std::string ty = r.pick(SV{"RATE GAS", "RATE WATER", "RATE OIL", "FREE", "DIRICHLET WATER", "THERMAL WATER", "NONE"});
+                               kw("BCPROP") << " 1 " << ty;
+                               if (ty.find(' ') != std::string::npos) o << " " << fmtD(-0.1 * r.unit()) << (r.coin() ? " " + fmtD(200 + r.below(100)) + (r.coin() ? " " + fmtD(20 + r.below(60)) : std::string("")) : std::string(""));
+                               o << " /\n";
+                               if (r.coin()) o << " 2 " << r.pick(SV{"FREE", "RATE WATER 0.01", "NONE * * * * FIXED 1 0 1 1.0 * 2.0 0.1"}) << " /\n"; o << "/\n"; } break;
+            case 32: if (tracers) kw("WTRACER") << " " << wq << " '" << r.pick(SV{"SEA", "OT", "GT"}) << "' " << fmtD(r.unit()) << " /\n/\n"; break;
+            case 33: if (!fluxAquifers.empty()) kw("AQUFLUX") << " 4 " << fmtD(r.unit() * 0.1) << (r.coin() ? " " + fmtD(r.unit()) + (r.coin() ? " " + fmtD(20 + r.below(50)) + " " + fmtD(200 + r.below(100)) : std::string("")) : std::string("")) << " /\n/\n"; else drsdt(); break;
+            case 34: case 35: drsdt(); break;
+            case 36: kw("WPIMULT") << " " << wq << " " << fmtD(0.5 + r.unit() * 2) << (r.coin(1, 3) ? " 2* " + std::to_string(r.range(1, nz)) : (r.coin(1, 4) ? " 3* 1 1" : std::string(""))) << " /\n/\n"; break;
+            case 37: if (injectorOK(w)) switch (r.below(4)) {
+                        case 0: if (polymer) kw("WPOLYMER") << " " << wq << " " << fmtD(r.unit() * 2) << " " << fmtD(r.unit()) << " /\n/\n"; break;
+                        case 1: kw("WFOAM") << " " << wq << " " << fmtD(r.unit()) << " /\n/\n"; break;
+                        case 2: kw("WSALT") << " " << wq << " " << fmtD(r.unit() * 30) << " /\n/\n"; break;
+                        default: kw("WINJTEMP") << " " << wq << " 1* " << fmtD(20 + r.below(60)) << (r.coin() ? " " + fmtD(100 + r.below(200)) : std::string("")) << " /\n/\n"; break; }
+                     break;
+            case 38: if (injectorOK(w)) kw("WINJMULT") << " " << wq << " " << fmtD(300 + r.below(200)) << " " << fmtD(r.unit() * 0.1) << " '" << r.pick(SV{"WREV", "CREV", "CIRR"}) << "'" << (r.coin(1, 3) ? " 2* " + std::to_string(r.range(1, nz)) : std::string("")) << " /\n/\n"; break;
+            case 39: kw("LIFTOPT") << " " << fmtD(100 + r.below(10000)) << " " << fmtD(r.unit() * 0.01) << " " << fmtD(r.below(30)) << " '" << r.pick(SV{"YES", "NO"}) << "' /\n"; lifton = true; (void) liftopt; break;
+            case 40: if (lifton) { if (r.coin()) kw("GLIFTOPT") << " '" << r.pick(groups) << "' " << (r.coin() ? "1*" : fmtD(r.below(90000))) << " " << (r.coin() ? "1*" : fmtD(r.below(90000))) << " /\n/\n";
+                                   else if (producer[w]) kw("WLIFTOPT") << " " << wq << " '" << r.pick(SV{"YES", "NO"}) << "' " << (r.coin() ? "1*" : fmtD(r.below(9000))) << " " << fmtD(0.5 + r.unit()) << " " << fmtD(r.below(100)) << " " << fmtD(r.unit()) << " '" << r.pick(SV{"YES", "NO"}) << "' /\n/\n"; }
+                     else { kw("LIFTOPT") << " " << fmtD(100 + r.below(10000)) << " " << fmtD(r.unit() * 0.01) << " /\n"; lifton = true; } break;
+            case 41: kw("GPMAINT") << " '" << r.pick(groups) << "' '" << r.pick(SV{"WINJ", "GINJ", "PROD", "NONE", "OINJ"}) << "' " << r.range(0, ntfip) << " 1* " << fmtD(200 + r.below(100)) << " " << fmtD(r.unit()) << " " << fmtD(0.5 + r.below(10)) << " /\n/\n"; break;
+            case 42: kw("WVFPEXP") << " " << wq << " '" << r.pick(SV{"EXP", "IMP"}) << "' '" << r.pick(SV{"YES", "NO"}) << "' '" << r.pick(SV{"YES1", "YES2", "NO"}) << "' /\n/\n"; break;
+            case 43: if (r.coin()) kw("WDFAC") << " " << wq << " " << fmtD(1e-4 * r.unit()) << " /\n/\n"; else kw("WDFACCOR") << " " << wq << " " << fmtD(1e-5 * r.unit()) << " " << fmtD(r.unit()) << " " << fmtD(r.unit()) << " /\n/\n"; break;
+            case 44: { kw("SOURCE"); for (int i = r.range(1, 3); i > 0; --i) o << " " << r.range(1, nx - 1) << " " << r.range(1, ny) << " " << r.range(1, nz) << " " << r.pick(SV{"GAS", "WATER", "OIL"}) << " " << fmtD(r.unit() * 0.1) << (r.coin(1, 3) ? " " + fmtD(r.below(100)) + " " + fmtD(20 + r.below(60)) : std::string("")) << " /\n"; o << "/\n"; break; }
+            case 45: if (r.coin()) kw("RPTSCHED") << " " << r.pick(SV{"FIP=2", "WELLS=2", "RESTART=2", "NOTHING", "FIP WELLS", "RESTART=1 FIP=3"}) << " /\n"; else { kw("SAVE"); } break;
+            case 46: kw("NEXTSTEP") << " " << fmtD(0.1 + r.unit() * 5) << " " << (r.coin() ? "YES" : "NO") << " /\n"; break;
+            case 47: if (!isMsw[w]) { kw("COMPLUMP") << " " << wq << " 2* " << (r.coin() ? "2*" : "1 " + std::to_string(r.range(1, nz))) << " " << r.range(1, 4) << " /\n/\n"; } break;
+            case 48: kw("WELPI") << " " << wq << " " << fmtD(1 + r.below(50)) << " /\n/\n"; break;
+            case 49: switch (r.below(3)) {
+                        case 0: kw("WPAVE") << " " << fmtD(r.unit()) << " " << fmtD(r.unit()) << " '" << r.pick(SV{"WELL", "RES", "NONE"}) << "' '" << r.pick(SV{"OPEN", "ALL"}) << "' /\n"; break;
+                        case 1: kw("WWPAVE") << " " << wq << " " << fmtD(r.unit()) << " " << fmtD(r.unit()) << " '" << r.pick(SV{"WELL", "RES", "NONE"}) << "' '" << r.pick(SV{"OPEN", "ALL"}) << "' /\n/\n"; break;
+                        default: kw("WPAVEDEP") << " " << wq << " " << fmtD(top + r.below(50)) << " /\n/\n"; break; }
+                     break;
+            case 50: if (faults && r.coin()) kw("MULTFLT") << " 'F1' " << fmtD(0.1 + r.unit()) << " /\n/\n"; else kw(r.pick(SV{"MULTX", "MULTY", "MULTZ"})) << " " << N << "*" << fmtD(0.5 + r.unit()) << " /\n"; break;
+            default: if (r.coin()) kw("WHISTCTL") << " '" << r.pick(SV{"ORAT", "LRAT", "RESV", "NONE"}) << "' /\n"; else kw("SUMTHIN") << " " << fmtD(1 + r.below(30)) << " /\n"; break;
             }
-            case 11: o << "NUPCOL\n " << r.range(1, 12) << " /\n"; break;
-            case 12: if (producer[w]) o << "WELTARG\n '" << wells[w] << "' '" << r.pick(std::vector<std::string>{"ORAT", "BHP", "LRAT"}) << "' " << fmtD(50 + r.below(4000)) << " /\n/\n"; break;
-            case 13: o << "UDQ\n ASSIGN FU" << r.range(1, 3) << " " << fmtD(r.below(100)) << " /\n " << (r.coin() ? "DEFINE WU" + std::to_string(r.range(1, 2)) + " WOPR * " + fmtD(1 + r.below(5)) + " /\n" : std::string("UNITS FU1 SM3 /\n")) << "/\n"; haveUdq = true; stats["gen.udq"]++; break;
-            case 14: {
-                o << "ACTIONX\n 'A" << r.range(1, 3) << "' " << r.range(1, 5) << " " << fmtD(r.below(50)) << " /\n " << r.pick(std::vector<std::string>{"FOPR", "WWCT 'W1'", "FWCT", "GOPR 'G1'"}) << " " << r.pick(std::vector<std::string>{">", "<", ">="}) << " " << fmtD(r.unit() * 100) << " /\n/\n";
-                if (r.coin()) o << "WELOPEN\n '" << (r.coin() ? "?" : wells[w]) << "' 'SHUT' /\n/\n";
-                if (r.coin()) { const int k1 = r.range(1, nz); o << "COMPDAT\n '" << wells[w] << "' " << r.range(1, nx) << " " << r.range(1, ny) << " " << k1 << " " << r.range(k1, nz) << " 'OPEN' 1* 1* 0.2 /\n/\n"; stats["gen.actionx_compdat"]++; }
-                o << "ENDACTIO\n"; haveAction = true; stats["gen.actionx"]++; break;
-            }
-            default: { const int l = r.range(1, 2); const bool isNew = !wlists.count(l); wlists.insert(l);
-                       o << "WLIST\n '*L" << l << "' '" << (isNew ? "NEW" : "ADD") << "' '" << wells[w] << "' /\n/\n"; break; }
-            }
-        }
-        if (r.coin(1, 6) && step > 0) { // a new well later on
-            // (names stay within the WELLDIMS reserve)
         }
         if (r.coin()) {
-            o << "TSTEP\n";
+            kw("TSTEP");
             for (int i = r.range(1, 3); i > 0; --i) {
                 switch (r.below(4)) { case 0: o << " " << r.range(1, 31); break; case 1: o << " " << fmtD(0.5 * (1 + r.below(20))); break;
                 case 2: o << " " << fmtD(r.unit() * 10); stats["gen.fractional_tstep"]++; break; default: o << " " << fmtD(1e-3 * (1 + r.below(900))); stats["gen.subday_tstep"]++; break; }
             }
             o << " /\n";
         } else {
-            o << "TSTEP\n " << r.range(1, 300) << " /\n";
+            kw("TSTEP") << " " << r.range(1, 300) << " /\n";
         }
     }
-    (void) haveUdq; (void) haveAction;
+    (void) len;
     o << "END\n";
     return o.str();
 }
@@ -1115,6 +2169,7 @@ inline void runObjects(vh::Rng& rng, vh::PropLog& plog, std::map<std::string, lo
     const int ngen = thorough ? 600 : 25;
     for (int i = 0; i < ngen; ++i) {
         const std::string text = genDeck(rng, stats);
+        if (std::getenv("SERIAL_DUMP_DECKS")) vh::spit(outdir + "/gen" + std::to_string(i) + ".DATA", text);
         Loaded L; std::string why;
         if (!load(text, false, L, why)) { stats["gen.rejected"]++; decklog << "gen-reject " << i << " " << why << "\n"; if (stats["gen.rejected"] <= 3) vh::spit(outdir + "/rejected" + std::to_string(i) + ".DATA", text); continue; }
         stats["gen.loaded"]++;
